@@ -1,20 +1,38 @@
 (* C19: enabling a feature that a program does not use never changes that program's observable behaviour.
    The compile-time switches c_serial (FFSM2_ENABLE_SERIALIZATION), c_history (FFSM2_ENABLE_TRANSITION_HISTORY)
    and c_plans (FFSM2_ENABLE_PLANS) of Model/Machine.v, each compared on and off for a program (oracle + API
-   operations) that stays away from the feature; the log switch is Proofs/LogProofs.v.
+   operations) that stays away from the feature; the log switch is Proofs/LogProofs.v, whose technique
+   (a projection that commutes with every model function, bottom-up) is used throughout.
    (1) Serialization: no model function reads c_serial; only [observe] does, and only for o_ser
-       (serial_step, serial_run, serial_observe).
+       (serial_step, serial_run, serial_run_rets, serial_observe).
    (2) Transition history: [strip_h] (forget previousTransition) commutes with every model function, the
-       right-hand side compiled without history (history_step, history_run, history_run_on_off).
-   (3) Plans: from the freshly constructed plan data, a program that issues no plan action and no plan
-       operation leaves the plan data untouched and runs identically with plans compiled in or out
-       (plans_step, plans_run, plans_run_same_but_plan, plans_observe).
-   (4) All 2^3 x 3 combinations of (plans, serial, history, log mode): features_irrelevant. *)
+       right-hand side compiled without history; operations other than replayEnter/replayTransition
+       (history_step, history_run, history_run_rets, history_run_on_off, history_irrelevant, history_observe).
+   (3) Plans, for a program whose callbacks perform no plan action ([no_plan_oracle]) and whose client calls no plan
+       operation ([no_plan_op]), given TASK_CAPACITY <= 255:
+       - from the plan data as constructed the run with plans compiled in IS the run with plans compiled out,
+         plan data included (plans_step, plans_run_from, plans_run, plans_run_observe);
+       - from any idle plan data ([PlanIdle]) it stays idle, and everything but the plan data is as with
+         plans compiled out, whatever plan data that side carries (plans_step_idle, plans_run_from_idle,
+         plans_off_plan_data_irrelevant); deepUpdatePlans does nothing (deep_update_plans_idle).
+   (4) All 2^3 x 3 combinations of (plans, serial, history, log mode) with any logger attachment:
+       features_transparent, features_irrelevant, features_irrelevant_observable. *)
 From Coq Require Import List Arith Bool NArith Lia.
 From FFSM2 Require Import Model.TaskList Model.BitArray Model.Plan Model.Ancestors Model.Dispatch
                           Model.Bits Model.BitStream Model.Machine Model.Script Proofs.LogProofs.
 Import ListNotations.
 
+(* the values the API calls return, one per operation *)
+Fixpoint rets_from (P : Type) (cfg : config) (orc : oracle P) (s : mstate P) (ops : list (api_op P)) : list (api_ret P) :=
+  match ops with
+  | [] => []
+  | op :: ops' => snd (step P cfg orc s op) :: rets_from P cfg orc (fst (step P cfg orc s op)) ops'
+  end.
+Definition run_rets (P : Type) (cfg : config) (orc : oracle P) (lg : bool) (ops : list (api_op P)) : list (api_ret P) :=
+  rets_from P cfg orc (construct P cfg orc lg) ops.
+
+
+(* ================= (1) serialization ================= *)
 Definition with_serial (c : config) (b : bool) : config :=
   {| c_n := c_n c; c_head := c_head c; c_manual := c_manual c; c_limit := c_limit c; c_cap := c_cap c;
      c_payload := c_payload c; c_inj_root := c_inj_root c; c_inj_state := c_inj_state c;
@@ -25,10 +43,11 @@ Lemma fold_left_ext {A B} (F G : A -> B -> A) :
   (forall x b, F x b = G x b) -> forall l x, fold_left F l x = fold_left G l x.
 Proof. intros H l. induction l as [|b l IH]; intros x; cbn [fold_left]; [reflexivity|]. rewrite H. apply IH. Qed.
 
-(* destruct the scrutinee of some match of the goal (both sides read the same after rewriting) *)
+(* destruct the scrutinee of an innermost match of the goal (both sides read the same after rewriting) *)
+Ltac no_match x := lazymatch x with context [match _ with _ => _ end] => fail | _ => idtac end.
 Ltac split_match :=
   match goal with
-  | |- context [match ?x with _ => _ end] => destruct x
+  | |- context [match ?x with _ => _ end] => no_match x; destruct x
   end.
 
 Section Serial.
@@ -133,7 +152,7 @@ Proof.
   destruct op; cbn [step];
     rewrite ?ser_initial_enter, ?ser_final_exit, ?ser_query, ?ser_immediate_change_to, ?ser_load,
       ?ser_replay_enter, ?ser_replay_transition, ?ser_api_plan_op, ?ser_update, ?ser_react; reflexivity.
-Time Qed.
+Qed.
 
 Theorem serial_run_from ops : forall s, run_from P cfgS orc s ops = run_from P cfg orc s ops.
 Proof.
@@ -147,6 +166,15 @@ Proof. unfold construct. cbn zeta. cfgnorm. rewrite ser_initial_enter. reflexivi
 Theorem serial_run lg ops : run P cfgS orc lg ops = run P cfg orc lg ops.
 Proof. unfold run. rewrite serial_construct. apply serial_run_from. Qed.
 
+Theorem serial_rets_from ops : forall s, rets_from P cfgS orc s ops = rets_from P cfg orc s ops.
+Proof.
+  induction ops as [|op ops IH]; intros s; cbn [rets_from]; [reflexivity|].
+  rewrite serial_step, IH. reflexivity.
+Qed.
+
+Theorem serial_run_rets lg ops : run_rets P cfgS orc lg ops = run_rets P cfg orc lg ops.
+Proof. unfold run_rets. rewrite serial_construct. apply serial_rets_from. Qed.
+
 Theorem serial_destroy s : destroy P cfgS orc s = destroy P cfg orc s.
 Proof. unfold destroy. cfgnorm. rewrite ser_final_exit. reflexivity. Qed.
 
@@ -159,3 +187,1682 @@ Theorem serial_observe c :
      o_ser := if b then save P cfg c else [] |}.
 Proof. reflexivity. Qed.
 End Serial.
+(* ================= (2) transition history ================= *)
+Definition with_history (c : config) (b : bool) : config :=
+  {| c_n := c_n c; c_head := c_head c; c_manual := c_manual c; c_limit := c_limit c; c_cap := c_cap c;
+     c_payload := c_payload c; c_inj_root := c_inj_root c; c_inj_state := c_inj_state c;
+     c_plans := c_plans c; c_serial := c_serial c; c_history := b; c_log := c_log c;
+     c_def_root := c_def_root c; c_def_state := c_def_state c |}.
+
+Lemma with_history_same c : with_history c (c_history c) = c.
+Proof. destruct c; reflexivity. Qed.
+
+Section History.
+Variable P : Type.
+
+(* forget previousTransition; the trace is untouched *)
+Definition strip_h (s : mstate P) : mstate P := upd_core P (fun c => set_previous P c (t_empty P)) s.
+Definition hP {A} (p : mstate P * A) : mstate P * A := (strip_h (fst p), snd p).
+Definition h3 {A B} (p : mstate P * A * B) : mstate P * A * B := (hP (fst p), snd p).
+
+(* a program that does not use the history API *)
+Definition no_history_op (op : api_op P) : Prop :=
+  match op with OReplayEnter _ _ | OReplayTransition _ _ => False | _ => True end.
+
+Lemma strip_h_idem s : strip_h (strip_h s) = strip_h s.
+Proof. reflexivity. Qed.
+Lemma tr_strip_h s : tr P (strip_h s) = tr P s.
+Proof. reflexivity. Qed.
+Lemma active_strip_h s : active P (co P (strip_h s)) = active P (co P s).
+Proof. reflexivity. Qed.
+Lemma requested_strip_h s : requested P (co P (strip_h s)) = requested P (co P s).
+Proof. reflexivity. Qed.
+Lemma request_strip_h s : request P (co P (strip_h s)) = request P (co P s).
+Proof. reflexivity. Qed.
+Lemma plan_strip_h s : plan P (co P (strip_h s)) = plan P (co P s).
+Proof. reflexivity. Qed.
+Lemma logger_strip_h s : logger P (co P (strip_h s)) = logger P (co P s).
+Proof. reflexivity. Qed.
+Lemma previous_strip_h s : previous P (co P (strip_h s)) = t_empty P.
+Proof. reflexivity. Qed.
+Lemma ria_strip_h s : registry_is_active P (co P (strip_h s)) = registry_is_active P (co P s).
+Proof. reflexivity. Qed.
+Lemma mia_strip_h s : machine_is_active P (co P (strip_h s)) = machine_is_active P (co P s).
+Proof. reflexivity. Qed.
+Lemma sps_strip_h s : state_plan_status P (co P (strip_h s)) = state_plan_status P (co P s).
+Proof. reflexivity. Qed.
+Lemma emit_strip_h e s : emit P e (strip_h s) = strip_h (emit P e s).
+Proof. reflexivity. Qed.
+Lemma upd_core_strip_h f s :
+  (forall c, set_previous P (f c) (t_empty P) = f (set_previous P c (t_empty P))) ->
+  upd_core P f (strip_h s) = strip_h (upd_core P f s).
+Proof. intros H. unfold strip_h, upd_core. cbn [co tr]. rewrite H. reflexivity. Qed.
+Lemma upd_plan_strip_h g s : upd_plan P g (strip_h s) = strip_h (upd_plan P g s).
+Proof. reflexivity. Qed.
+(* whatever is written to previousTransition is forgotten *)
+Lemma strip_h_set_previous f s :
+  (forall c, set_previous P (f c) (t_empty P) = set_previous P c (t_empty P)) ->
+  strip_h (upd_core P f s) = strip_h s.
+Proof. intros H. unfold strip_h, upd_core. cbn [co tr]. rewrite H. reflexivity. Qed.
+Lemma hP_pair {A} s (a : A) : hP (s, a) = (strip_h s, a).
+Proof. reflexivity. Qed.
+Lemma h3_pair {A B} s (a : A) (b : B) : h3 (s, a, b) = (strip_h s, a, b).
+Proof. reflexivity. Qed.
+Lemma fst_hP {A} (p : mstate P * A) : fst (hP p) = strip_h (fst p).
+Proof. reflexivity. Qed.
+Lemma snd_hP {A} (p : mstate P * A) : snd (hP p) = snd p.
+Proof. reflexivity. Qed.
+
+(* left-hand sides run under [cfg]; right-hand sides under the same configuration compiled without the
+   transition history, from the state with previousTransition forgotten *)
+Section WithCfg.
+Variable cfg : config.
+Local Notation cfgH := (with_history cfg false).
+Variable orc : oracle P.
+
+Ltac cfgnorm :=
+  change (c_n cfgH) with (c_n cfg); change (c_head cfgH) with (c_head cfg);
+  change (c_manual cfgH) with (c_manual cfg); change (c_limit cfgH) with (c_limit cfg);
+  change (c_cap cfgH) with (c_cap cfg); change (c_payload cfgH) with (c_payload cfg);
+  change (c_plans cfgH) with (c_plans cfg); change (c_history cfgH) with false;
+  change (can_plan cfgH) with (can_plan cfg); change (exists_who cfgH) with (exists_who cfg);
+  change (delivers cfgH) with (delivers cfg); change (inj_of cfgH) with (inj_of cfg);
+  change (logs cfgH) with (logs cfg); change (log_rec P cfgH) with (log_rec P cfg);
+  change (leaf cfgH) with (leaf cfg); change (mk_view P cfgH) with (mk_view P cfg);
+  change (width_bits cfgH) with (width_bits cfg); change (log_compiled cfgH) with (log_compiled cfg);
+  cbn iota.
+
+Lemma log_rec_strip_h l s : log_rec P cfg l (strip_h s) = strip_h (log_rec P cfg l s).
+Proof. unfold log_rec. rewrite logger_strip_h. destruct (log_compiled cfg && logger P (co P s)); reflexivity. Qed.
+
+Lemma mk_view_strip_h o k s : mk_view P cfg o k (co P (strip_h s)) = mk_view P cfg o k (co P s).
+Proof. reflexivity. Qed.
+
+Hint Rewrite tr_strip_h active_strip_h requested_strip_h request_strip_h plan_strip_h logger_strip_h
+  ria_strip_h mia_strip_h sps_strip_h emit_strip_h upd_plan_strip_h log_rec_strip_h mk_view_strip_h
+  @hP_pair @h3_pair @fst_hP @snd_hP : hh.
+Hint Rewrite upd_core_strip_h using (intros; reflexivity) : hh.
+
+Ltac h_split :=
+  match goal with
+  | |- context [match hP ?x with _ => _ end] => no_match x; destruct x
+  | |- context [match h3 ?x with _ => _ end] => no_match x; destruct x as [[? ?] ?]
+  | |- context [match ?x with _ => _ end] => no_match x; destruct x
+  end.
+Ltac h_go := cfgnorm; repeat (autorewrite with hh; cbn beta iota; try h_split); try reflexivity.
+
+Lemma h_perform origin a s k :
+  perform P cfgH origin a (strip_h s, k) = h3 (perform P cfg origin a (s, k)).
+Proof.
+  destruct a as [d|d p| |so|so|o d|o d p| |i]; cbn [perform]; h_go.
+Qed.
+
+Lemma h_perform_all origin acts sk :
+  perform_all P cfgH origin acts (hP sk) = hP (perform_all P cfg origin acts sk).
+Proof.
+  unfold perform_all. symmetry. apply fold_commute. intros [s k] a.
+  rewrite hP_pair, h_perform. destruct (perform P cfg origin a (s, k)) as [[s1 k1] res]. reflexivity.
+Qed.
+
+Lemma h_invoke w r m s k : invoke P cfgH orc w r m (strip_h s, k) = hP (invoke P cfg orc w r m (s, k)).
+Proof.
+  unfold invoke. cfgnorm. autorewrite with hh. rewrite <- h_perform_all. reflexivity.
+Qed.
+
+Lemma h_deliver w m s k : deliver P cfgH orc w m (strip_h s, k) = hP (deliver P cfg orc w m (s, k)).
+Proof.
+  unfold deliver. cfgnorm.
+  assert (E : (if logs cfg w m then log_rec P cfg (LMethod (id_of w) m) (strip_h s) else strip_h s) =
+              strip_h (if logs cfg w m then log_rec P cfg (LMethod (id_of w) m) s else s)).
+  { destruct (logs cfg w m); [apply log_rec_strip_h|reflexivity]. }
+  rewrite E. destruct (exists_who cfg w); [|reflexivity].
+  rewrite <- hP_pair. symmetry. apply fold_commute. intros [x kx] r.
+  destruct (delivers cfg w r m); [|reflexivity]. rewrite hP_pair, h_invoke. reflexivity.
+Qed.
+
+Lemma h_deliver_guard w m s k :
+  deliver_guard P cfgH orc w m (strip_h s, k) = h3 (deliver_guard P cfg orc w m (s, k)).
+Proof.
+  unfold deliver_guard. rewrite h_deliver. cbn [snd].
+  destruct (deliver P cfg orc w m (s, k)) as [s1 k1]. reflexivity.
+Qed.
+Hint Rewrite h_deliver h_deliver_guard : hh.
+
+Lemma h_region_phase m post s k :
+  region_phase P cfgH orc m post (strip_h s, k) = hP (region_phase P cfg orc m post (s, k)).
+Proof. unfold region_phase. cbn [fst snd]. h_go. Qed.
+
+Lemma h_plan_scan : forall fuel curr next tc s,
+  plan_scan P cfgH fuel curr next tc (strip_h s) = hP (plan_scan P cfg fuel curr next tc s).
+Proof.
+  induction fuel as [|f IH]; intros curr next tc s; cbn [plan_scan]; [reflexivity|].
+  h_go; rewrite IH; reflexivity.
+Qed.
+Hint Rewrite h_region_phase h_plan_scan : hh.
+
+Lemma h_update_plan status s k :
+  update_plan P cfgH orc status (strip_h s, k) = hP (update_plan P cfg orc status (s, k)).
+Proof. unfold update_plan. h_go. Qed.
+Hint Rewrite h_update_plan : hh.
+
+Lemma h_deep_update_plans s k :
+  deep_update_plans P cfgH orc (strip_h s, k) = hP (deep_update_plans P cfg orc (s, k)).
+Proof. unfold deep_update_plans. cbn [fst snd]. h_go. Qed.
+
+Lemma h_apply_request cur d s : apply_request P cur d (strip_h s) = hP (apply_request P cur d s).
+Proof. unfold apply_request. h_go. Qed.
+Hint Rewrite h_deep_update_plans h_apply_request : hh.
+
+Lemma h_cancelled_by_guards cur pend s :
+  cancelled_by_guards P cfgH orc cur pend (strip_h s) = hP (cancelled_by_guards P cfg orc cur pend s).
+Proof. unfold cancelled_by_guards. h_go. Qed.
+Lemma h_cancelled_by_entry_guards cur pend s :
+  cancelled_by_entry_guards P cfgH orc cur pend (strip_h s) = hP (cancelled_by_entry_guards P cfg orc cur pend s).
+Proof. unfold cancelled_by_entry_guards. h_go. Qed.
+Lemma h_state_exit w k s : state_exit P cfgH orc w k (strip_h s) = strip_h (state_exit P cfg orc w k s).
+Proof. unfold state_exit. h_go. Qed.
+Hint Rewrite h_cancelled_by_guards h_cancelled_by_entry_guards h_state_exit : hh.
+
+Lemma h_deep_change_to_requested cur s :
+  deep_change_to_requested P cfgH orc cur (strip_h s) = strip_h (deep_change_to_requested P cfg orc cur s).
+Proof. unfold deep_change_to_requested. cbn zeta. h_go. Qed.
+Lemma h_deep_enter cur s : deep_enter P cfgH orc cur (strip_h s) = strip_h (deep_enter P cfg orc cur s).
+Proof. unfold deep_enter. cbn zeta. h_go. Qed.
+Lemma h_deep_exit s : deep_exit P cfgH orc (strip_h s) = strip_h (deep_exit P cfg orc s).
+Proof. unfold deep_exit. cbn zeta. h_go. Qed.
+Hint Rewrite h_deep_change_to_requested h_deep_enter h_deep_exit : hh.
+
+Lemma h_transitions_loop : forall fuel cur s,
+  transitions_loop P cfgH orc fuel cur (strip_h s) = hP (transitions_loop P cfg orc fuel cur s).
+Proof.
+  induction fuel as [|f IH]; intros cur s; cbn [transitions_loop]; [reflexivity|].
+  h_go; rewrite IH; reflexivity.
+Qed.
+Lemma h_initial_loop : forall fuel cur s,
+  initial_loop P cfgH orc fuel cur (strip_h s) = hP (initial_loop P cfg orc fuel cur s).
+Proof.
+  induction fuel as [|f IH]; intros cur s; cbn [initial_loop]; [reflexivity|].
+  h_go; rewrite IH; reflexivity.
+Qed.
+Hint Rewrite h_transitions_loop h_initial_loop : hh.
+
+Lemma h_process_transitions s :
+  process_transitions P cfgH orc (strip_h s) = hP (process_transitions P cfg orc s).
+Proof. unfold process_transitions. h_go. Qed.
+Hint Rewrite h_process_transitions : hh.
+
+Lemma h_process_request s : process_request P cfgH orc (strip_h s) = strip_h (process_request P cfg orc s).
+Proof. unfold process_request. h_go. Qed.
+Hint Rewrite h_process_request : hh.
+
+Lemma h_initial_enter s : initial_enter P cfgH orc (strip_h s) = strip_h (initial_enter P cfg orc s).
+Proof.
+  unfold initial_enter. h_go.
+  (* history on: deepEnter runs with previousTransition already written, which it never reads *)
+  rewrite <- !upd_core_strip_h by reflexivity. rewrite <- !h_deep_enter. reflexivity.
+Qed.
+
+Lemma h_final_exit s : final_exit P cfgH orc (strip_h s) = strip_h (final_exit P cfg orc s).
+Proof. unfold final_exit. cbn zeta. h_go. Qed.
+Hint Rewrite h_initial_enter h_final_exit : hh.
+
+Lemma h_region_phase_p m post sk :
+  region_phase P cfgH orc m post (hP sk) = hP (region_phase P cfg orc m post sk).
+Proof. destruct sk as [s k]. apply h_region_phase. Qed.
+Lemma h_deep_update_plans_p sk : deep_update_plans P cfgH orc (hP sk) = hP (deep_update_plans P cfg orc sk).
+Proof. destruct sk as [s k]. apply h_deep_update_plans. Qed.
+
+Lemma h_cycle m1 m2 m3 s : cycle P cfgH orc m1 m2 m3 (strip_h s) = strip_h (cycle P cfg orc m1 m2 m3 s).
+Proof.
+  unfold cycle. cbn zeta. cfgnorm. rewrite h_region_phase, !h_region_phase_p.
+  set (sk := region_phase P cfg orc m3 true _).
+  destruct (c_plans cfg).
+  - rewrite h_deep_update_plans_p. destruct (deep_update_plans P cfg orc sk) as [s1 k1].
+    rewrite hP_pair, upd_plan_strip_h. apply h_process_request.
+  - destruct sk as [s1 k1]. rewrite hP_pair. apply h_process_request.
+Qed.
+Lemma h_update s : update P cfgH orc (strip_h s) = strip_h (update P cfg orc s).
+Proof. apply h_cycle. Qed.
+Lemma h_react s : react P cfgH orc (strip_h s) = strip_h (react P cfg orc s).
+Proof. apply h_cycle. Qed.
+Lemma h_query s : query P cfgH orc (strip_h s) = strip_h (query P cfg orc s).
+Proof. unfold query. cbn zeta. h_go. Qed.
+Lemma h_change_to d p s : change_to P cfgH d p (strip_h s) = strip_h (change_to P cfg d p s).
+Proof. unfold change_to. h_go. Qed.
+Hint Rewrite h_change_to : hh.
+Lemma h_immediate_change_to d p s :
+  immediate_change_to P cfgH orc d p (strip_h s) = strip_h (immediate_change_to P cfg orc d p s).
+Proof. unfold immediate_change_to. h_go. Qed.
+Lemma h_api_succeed sid s : api_succeed P cfgH sid (strip_h s) = strip_h (api_succeed P cfg sid s).
+Proof. unfold api_succeed. h_go. Qed.
+Lemma h_api_fail sid s : api_fail P cfgH sid (strip_h s) = strip_h (api_fail P cfg sid s).
+Proof. unfold api_fail. h_go. Qed.
+Lemma h_base_load buf cu s : base_load P cfgH orc buf cu (strip_h s) = strip_h (base_load P cfg orc buf cu s).
+Proof.
+  unfold base_load. cbn zeta. h_go; rewrite <- !h_deep_change_to_requested; reflexivity.
+Qed.
+Lemma h_load_enter buf cu s : load_enter P cfgH orc buf cu (strip_h s) = strip_h (load_enter P cfg orc buf cu s).
+Proof. unfold load_enter. h_go. Qed.
+Hint Rewrite h_base_load h_load_enter : hh.
+Lemma h_load buf s : load P cfgH orc buf (strip_h s) = strip_h (load P cfg orc buf s).
+Proof. unfold load. h_go. Qed.
+Lemma h_api_plan_op a s : api_plan_op P cfgH a (strip_h s) = hP (api_plan_op P cfg a s).
+Proof.
+  unfold api_plan_op. rewrite h_perform.
+  destruct (perform P cfg INVALID a _) as [[s1 k1] res]. reflexivity.
+Qed.
+
+(* one API operation that is not part of the history API *)
+Lemma h_step s op : no_history_op op ->
+  step P cfgH orc (strip_h s) op = hP (step P cfg orc s op).
+Proof.
+  intros Hop. destruct op; cbn [no_history_op] in Hop; try contradiction; cbn [step];
+    rewrite ?h_initial_enter, ?h_final_exit, ?h_update, ?h_react, ?h_query, ?h_change_to,
+      ?h_immediate_change_to, ?h_api_succeed, ?h_api_fail, ?h_load, ?h_api_plan_op; reflexivity.
+Qed.
+
+Lemma h_run_from : forall ops s, Forall no_history_op ops ->
+  run_from P cfgH orc (strip_h s) ops = strip_h (run_from P cfg orc s ops).
+Proof.
+  unfold run_from. induction ops as [|op ops IH]; intros s Hops; cbn [fold_left]; [reflexivity|].
+  inversion Hops as [|? ? Hop Hrest]; subst.
+  rewrite (h_step s op Hop), fst_hP. apply IH. exact Hrest.
+Qed.
+
+Lemma h_construct lg : construct P cfgH orc lg = strip_h (construct P cfg orc lg).
+Proof.
+  unfold construct. cbn zeta. cfgnorm. destruct (c_manual cfg); [reflexivity|].
+  rewrite <- h_initial_enter. reflexivity.
+Qed.
+
+Lemma h_destroy s : destroy P cfgH orc (strip_h s) = strip_h (destroy P cfg orc s).
+Proof. unfold destroy. cfgnorm. destruct (c_manual cfg); [reflexivity|apply h_final_exit]. Qed.
+
+End WithCfg.
+End History.
+
+Arguments hP {P A}.
+Arguments h3 {P A B}.
+
+(* C19, transition history, general form: a run under any configuration, with previousTransition forgotten, IS
+   the run under the same configuration compiled without the transition history *)
+Theorem history_step : forall P cfg orc s op, no_history_op P op ->
+  strip_h P (fst (step P cfg orc s op)) = fst (step P (with_history cfg false) orc (strip_h P s) op) /\
+  snd (step P cfg orc s op) = snd (step P (with_history cfg false) orc (strip_h P s) op).
+Proof. intros P cfg orc s op Hop. rewrite (h_step P cfg orc s op Hop). split; reflexivity. Qed.
+
+Theorem history_run_from : forall P cfg orc ops s, Forall (no_history_op P) ops ->
+  strip_h P (run_from P cfg orc s ops) = run_from P (with_history cfg false) orc (strip_h P s) ops.
+Proof. intros P cfg orc ops s H. symmetry. apply h_run_from. exact H. Qed.
+
+Theorem history_construct : forall P cfg orc lg,
+  strip_h P (construct P cfg orc lg) = construct P (with_history cfg false) orc lg.
+Proof. intros. symmetry. apply h_construct. Qed.
+
+Theorem history_run : forall P cfg orc lg ops, Forall (no_history_op P) ops ->
+  strip_h P (run P cfg orc lg ops) = run P (with_history cfg false) orc lg ops.
+Proof.
+  intros P cfg orc lg ops H. unfold run. rewrite (history_run_from P cfg orc ops _ H), history_construct. reflexivity.
+Qed.
+
+Theorem history_rets_from : forall P cfg orc ops s, Forall (no_history_op P) ops ->
+  rets_from P cfg orc s ops = rets_from P (with_history cfg false) orc (strip_h P s) ops.
+Proof.
+  intros P cfg orc. induction ops as [|op ops IH]; intros s H; cbn [rets_from]; [reflexivity|].
+  inversion H as [|? ? Hop Hrest]; subst.
+  destruct (history_step P cfg orc s op Hop) as [E1 E2]. rewrite <- E1, <- E2, <- IH by exact Hrest. reflexivity.
+Qed.
+
+Theorem history_run_rets : forall P cfg orc lg ops, Forall (no_history_op P) ops ->
+  run_rets P cfg orc lg ops = run_rets P (with_history cfg false) orc lg ops.
+Proof.
+  intros P cfg orc lg ops H. unfold run_rets.
+  rewrite (history_rets_from P cfg orc ops _ H), history_construct. reflexivity.
+Qed.
+
+(* compiled in against compiled out *)
+Corollary history_run_on_off : forall P cfg orc lg ops, Forall (no_history_op P) ops ->
+  strip_h P (run P (with_history cfg true) orc lg ops) = run P (with_history cfg false) orc lg ops.
+Proof. intros P cfg orc lg ops H. exact (history_run P (with_history cfg true) orc lg ops H). Qed.
+
+Corollary history_run_rets_on_off : forall P cfg orc lg ops, Forall (no_history_op P) ops ->
+  run_rets P (with_history cfg true) orc lg ops = run_rets P (with_history cfg false) orc lg ops.
+Proof. intros P cfg orc lg ops H. exact (history_run_rets P (with_history cfg true) orc lg ops H). Qed.
+
+Corollary history_irrelevant : forall P cfg b1 b2 orc lg ops, Forall (no_history_op P) ops ->
+  strip_h P (run P (with_history cfg b1) orc lg ops) = strip_h P (run P (with_history cfg b2) orc lg ops) /\
+  run_rets P (with_history cfg b1) orc lg ops = run_rets P (with_history cfg b2) orc lg ops.
+Proof.
+  intros P cfg b1 b2 orc lg ops H. split.
+  - rewrite (history_run P (with_history cfg b1) orc lg ops H), (history_run P (with_history cfg b2) orc lg ops H).
+    reflexivity.
+  - rewrite (history_run_rets P (with_history cfg b1) orc lg ops H),
+      (history_run_rets P (with_history cfg b2) orc lg ops H). reflexivity.
+Qed.
+
+(* what that says field by field: same trace, same registry, request, plan data and logger *)
+Lemma strip_h_fields P (s t : mstate P) : strip_h P s = t ->
+  tr P s = tr P t /\ active P (co P s) = active P (co P t) /\ requested P (co P s) = requested P (co P t) /\
+  request P (co P s) = request P (co P t) /\ plan P (co P s) = plan P (co P t) /\
+  logger P (co P s) = logger P (co P t) /\ previous P (co P t) = t_empty P.
+Proof. intros H. subst t. repeat split; reflexivity. Qed.
+
+Corollary history_run_fields : forall P cfg orc lg ops, Forall (no_history_op P) ops ->
+  let l := run P (with_history cfg true) orc lg ops in
+  let r := run P (with_history cfg false) orc lg ops in
+  tr P l = tr P r /\ active P (co P l) = active P (co P r) /\ requested P (co P l) = requested P (co P r) /\
+  request P (co P l) = request P (co P r) /\ plan P (co P l) = plan P (co P r) /\
+  logger P (co P l) = logger P (co P r) /\ previous P (co P r) = t_empty P.
+Proof. intros P cfg orc lg ops H. apply strip_h_fields, history_run_on_off, H. Qed.
+
+(* the instance's own report differs in previousTransition() only *)
+Corollary history_observe : forall P cfg (s : mstate P),
+  observe P (with_history cfg false) (co P (strip_h P s)) =
+  let o := observe P cfg (co P s) in
+  {| o_active := o_active P o; o_on := o_on P o; o_act := o_act P o; o_request := o_request P o;
+     o_prev := t_empty P; o_plan := o_plan P o; o_first := o_first P o; o_last := o_last P o; o_ser := o_ser P o |}.
+Proof. reflexivity. Qed.
+(* ================= (3) plans ================= *)
+Definition with_plans (c : config) (b : bool) : config :=
+  {| c_n := c_n c; c_head := c_head c; c_manual := c_manual c; c_limit := c_limit c; c_cap := c_cap c;
+     c_payload := c_payload c; c_inj_root := c_inj_root c; c_inj_state := c_inj_state c;
+     c_plans := b; c_serial := c_serial c; c_history := c_history c; c_log := c_log c;
+     c_def_root := c_def_root c; c_def_state := c_def_state c |}.
+
+Lemma with_plans_same c : with_plans c (c_plans c) = c.
+Proof. destruct c; reflexivity. Qed.
+
+(* ---- bit arrays and plan data that were never written ---- *)
+Lemma uset_nat_fix (f : N -> N) : forall b i, Forall (fun x => f x = x) b -> uset_nat b i f = b.
+Proof.
+  induction b as [|h t IH]; intros i H; [destruct i; reflexivity|].
+  inversion H as [|? ? Hh Ht]; subst. destruct i as [|j]; cbn [uset_nat]; [rewrite Hh|rewrite IH by exact Ht]; reflexivity.
+Qed.
+
+Lemma Forall_repeat {A} (Q : A -> Prop) x k : Q x -> Forall Q (repeat x k).
+Proof. intros H. induction k as [|k IH]; cbn [repeat]; constructor; assumption. Qed.
+
+Lemma ba_clear_init cap i : ba_clear (ba_init cap) i = ba_init cap.
+Proof. unfold ba_clear, uset, ba_init. apply uset_nat_fix, Forall_repeat. apply N.land_0_l. Qed.
+
+Lemma clear_bits_init cap : forall k, clear_bits k (ba_init cap) = ba_init cap.
+Proof. induction k as [|k IH]; cbn [clear_bits]; [reflexivity|]. rewrite IH. apply ba_clear_init. Qed.
+
+Lemma map_const_repeat {A B} (y : B) (x : A) k : map (fun _ => x) (repeat y k) = repeat x k.
+Proof. induction k as [|k IH]; cbn [repeat map]; [reflexivity|]. rewrite IH. reflexivity. Qed.
+
+Lemma ba_clear_all_init cap : ba_clear_all (ba_init cap) = ba_init cap.
+Proof. unfold ba_clear_all, ba_init. apply map_const_repeat. Qed.
+
+Lemma INVALID_not_below cap : cap <= 255 -> (INVALID <? cap) = false.
+Proof. intros H. apply Nat.ltb_ge. unfold INVALID. exact H. Qed.
+
+Section PlanData.
+Variable P : Type.
+Variables cap n : nat.
+Hypothesis Hcap : cap <= 255.
+
+(* the plan data is idle: no plan exists, nothing is linked, no region status is pending *)
+Definition PlanIdle (d : plan_data P) : Prop :=
+  pd_exists d = false /\ pd_head_status d = SNone /\ pd_sub_status d = SNone /\ first (pd_pl d) = INVALID.
+
+Lemma idle_plan_indices d : PlanIdle d -> plan_indices P cap d = [].
+Proof.
+  intros (_ & _ & _ & Hf). unfold plan_indices. rewrite Hf. cbn [iter_indices].
+  rewrite (INVALID_not_below cap Hcap). reflexivity.
+Qed.
+Lemma idle_plan_tasks d : PlanIdle d -> plan_tasks P cap d = [].
+Proof. intros H. unfold plan_tasks. rewrite (idle_plan_indices d H). reflexivity. Qed.
+Lemma idle_plan_nonempty d : PlanIdle d -> plan_nonempty P cap d = false.
+Proof. intros (_ & _ & _ & Hf). unfold plan_nonempty. rewrite Hf. apply INVALID_not_below, Hcap. Qed.
+
+Local Notation pd0 := (pd_init P cap n).
+
+Lemma pd0_idle : PlanIdle pd0.
+Proof. repeat split. Qed.
+Lemma pd0_tasks : plan_tasks P cap pd0 = [].
+Proof. apply idle_plan_tasks, pd0_idle. Qed.
+Lemma pd0_nonempty : plan_nonempty P cap pd0 = false.
+Proof. apply idle_plan_nonempty, pd0_idle. Qed.
+Lemma pd0_clear_task_status sid : pd_clear_task_status P pd0 sid = pd0.
+Proof.
+  unfold pd_clear_task_status. destruct (sid =? INVALID); [reflexivity|].
+  unfold pd_with_fail, pd_with_succ, pd_init. cbn [pd_succ pd_fail pd_tasks pd_pl pd_exists pd_head_status pd_sub_status].
+  rewrite ba_clear_init. reflexivity.
+Qed.
+Lemma pd0_plan_clear : plan_clear P cap n pd0 = pd0.
+Proof.
+  unfold plan_clear, plan_clear_tasks.
+  change (first (pd_pl pd0)) with INVALID. rewrite (INVALID_not_below cap Hcap).
+  unfold pd_with_fail, pd_with_succ, pd_init. cbn [pd_succ pd_fail pd_tasks pd_pl pd_exists pd_head_status pd_sub_status].
+  rewrite clear_bits_init. reflexivity.
+Qed.
+Lemma pd0_pd_clear : pd_clear P pd0 = pd0.
+Proof.
+  unfold pd_clear, pd_init. cbn [pd_succ pd_fail pd_tasks pd_pl links].
+  rewrite !ba_clear_all_init, map_const_repeat. reflexivity.
+Qed.
+End PlanData.
+
+Section Plans.
+Variable P : Type.
+
+(* a callback that stays away from plans: no succeed()/fail(), no plan edits *)
+Definition no_plan_action (a : action P) : Prop :=
+  match a with AChange _ _ | AChangeWith _ _ _ | ACancel _ => True | _ => False end.
+Definition no_plan_oracle (orc : oracle P) : Prop := forall t w r m v, Forall no_plan_action (orc t w r m v).
+(* an API client that stays away from plans *)
+Definition no_plan_op (op : api_op P) : Prop :=
+  match op with
+  | OSucceed _ _ | OFail _ _ | OPlanAppend _ _ _ | OPlanAppendWith _ _ _ _ | OPlanClear _ | OPlanRemoveAt _ _ => False
+  | _ => True
+  end.
+
+(* equal in everything but the plan data *)
+Definition same_but_plan (s s' : mstate P) : Prop :=
+  active P (co P s) = active P (co P s') /\ requested P (co P s) = requested P (co P s') /\
+  request P (co P s) = request P (co P s') /\ previous P (co P s) = previous P (co P s') /\
+  logger P (co P s) = logger P (co P s') /\ tr P s = tr P s'.
+
+Section WithCfg.
+Variable cfg : config.
+Hypothesis Hcap : c_cap cfg <= 255.
+Local Notation pd0 := (pd_init P (c_cap cfg) (c_n cfg)).
+Local Notation cfgP b := (with_plans cfg b).
+Local Notation cfg0 := (with_plans cfg false).
+
+(* the plan data as constructed; no task status reported through the control *)
+Definition fresh (s : mstate P) : mstate P := upd_core P (fun c => set_plan P c pd0) s.
+Definition calm (k : ctl P) : ctl P := set_status P k SNone.
+Definition fP (p : mstate P * ctl P) : mstate P * ctl P := (fresh (fst p), calm (snd p)).
+Definition f3 {A} (p : mstate P * ctl P * A) : mstate P * ctl P * A := (fP (fst p), snd p).
+Definition fB {A} (p : mstate P * A) : mstate P * A := (fresh (fst p), snd p).
+
+Lemma fresh_idem s : fresh (fresh s) = fresh s. Proof. reflexivity. Qed.
+Lemma calm_idem k : calm (calm k) = calm k. Proof. reflexivity. Qed.
+Lemma tr_fresh s : tr P (fresh s) = tr P s. Proof. reflexivity. Qed.
+Lemma active_fresh s : active P (co P (fresh s)) = active P (co P s). Proof. reflexivity. Qed.
+Lemma requested_fresh s : requested P (co P (fresh s)) = requested P (co P s). Proof. reflexivity. Qed.
+Lemma request_fresh s : request P (co P (fresh s)) = request P (co P s). Proof. reflexivity. Qed.
+Lemma previous_fresh s : previous P (co P (fresh s)) = previous P (co P s). Proof. reflexivity. Qed.
+Lemma logger_fresh s : logger P (co P (fresh s)) = logger P (co P s). Proof. reflexivity. Qed.
+Lemma plan_fresh s : plan P (co P (fresh s)) = pd0. Proof. reflexivity. Qed.
+Lemma ria_fresh s : registry_is_active P (co P (fresh s)) = registry_is_active P (co P s). Proof. reflexivity. Qed.
+Lemma mia_fresh s : machine_is_active P (co P (fresh s)) = machine_is_active P (co P s). Proof. reflexivity. Qed.
+Lemma emit_fresh e s : emit P e (fresh s) = fresh (emit P e s). Proof. reflexivity. Qed.
+Lemma upd_core_fresh f s :
+  (forall c, set_plan P (f c) pd0 = f (set_plan P c pd0)) -> upd_core P f (fresh s) = fresh (upd_core P f s).
+Proof. intros H. unfold fresh, upd_core. cbn [co tr]. rewrite H. reflexivity. Qed.
+(* an update of the plan data that leaves the constructed plan data as it is *)
+Lemma upd_plan_fresh g s : g pd0 = pd0 -> upd_plan P g (fresh s) = fresh s.
+Proof. intros H. unfold upd_plan, fresh, upd_core. cbn [co tr plan set_plan active requested request previous logger]. rewrite H. reflexivity. Qed.
+Lemma k_status_calm k : k_status P (calm k) = SNone. Proof. reflexivity. Qed.
+Lemma k_kind_calm k : k_kind P (calm k) = k_kind P k. Proof. reflexivity. Qed.
+Lemma k_cancelled_calm k : k_cancelled P (calm k) = k_cancelled P k. Proof. reflexivity. Qed.
+Lemma set_cancelled_calm k b : set_cancelled P (calm k) b = calm (set_cancelled P k b). Proof. reflexivity. Qed.
+Lemma set_status_none k : set_status P k SNone = calm k. Proof. reflexivity. Qed.
+Lemma mk_ctl_calm kd a b : mk_ctl P kd a b = calm (mk_ctl P kd a b). Proof. reflexivity. Qed.
+Lemma fP_pair s k : fP (s, k) = (fresh s, calm k). Proof. reflexivity. Qed.
+Lemma f3_pair {A} s k (a : A) : f3 (s, k, a) = (fresh s, calm k, a). Proof. reflexivity. Qed.
+Lemma fB_pair {A} s (a : A) : fB (s, a) = (fresh s, a). Proof. reflexivity. Qed.
+Lemma fst_fP p : fst (fP p) = fresh (fst p). Proof. reflexivity. Qed.
+Lemma snd_fP p : snd (fP p) = calm (snd p). Proof. reflexivity. Qed.
+Lemma fst_fB {A} (p : mstate P * A) : fst (fB p) = fresh (fst p). Proof. reflexivity. Qed.
+Lemma snd_fB {A} (p : mstate P * A) : snd (fB p) = snd p. Proof. reflexivity. Qed.
+
+(* a state whose plan data is as constructed is its own [fresh] *)
+Lemma fresh_eta s : plan P (co P s) = pd0 -> fresh s = s.
+Proof. destruct s as [[a rq r pv pl lg] t]. cbn [co plan]. intros H. subst pl. reflexivity. Qed.
+
+Ltac cfgnorm b :=
+  change (c_n (cfgP b)) with (c_n cfg); change (c_head (cfgP b)) with (c_head cfg);
+  change (c_manual (cfgP b)) with (c_manual cfg); change (c_limit (cfgP b)) with (c_limit cfg);
+  change (c_cap (cfgP b)) with (c_cap cfg); change (c_payload (cfgP b)) with (c_payload cfg);
+  change (c_plans (cfgP b)) with b; change (c_history (cfgP b)) with (c_history cfg);
+  change (exists_who (cfgP b)) with (exists_who cfg);
+  change (delivers (cfgP b)) with (delivers cfg); change (inj_of (cfgP b)) with (inj_of cfg);
+  change (logs (cfgP b)) with (logs cfg); change (log_rec P (cfgP b)) with (log_rec P cfg);
+  change (leaf (cfgP b)) with (leaf cfg);
+  change (width_bits (cfgP b)) with (width_bits cfg); change (log_compiled (cfgP b)) with (log_compiled cfg);
+  cbn iota.
+
+Lemma log_rec_fresh l s : log_rec P cfg l (fresh s) = fresh (log_rec P cfg l s).
+Proof. unfold log_rec. rewrite logger_fresh. destruct (log_compiled cfg && logger P (co P s)); reflexivity. Qed.
+
+(* the views do not show an idle plan *)
+Lemma p_mk_view b o k s : mk_view P (cfgP b) o (calm k) (co P (fresh s)) = mk_view P cfg0 o k (co P s).
+Proof.
+  unfold mk_view. cfgnorm b. cfgnorm false. rewrite plan_fresh, (pd0_tasks P _ (c_n cfg) Hcap).
+  destruct b; reflexivity.
+Qed.
+
+Hint Rewrite fresh_idem calm_idem tr_fresh active_fresh requested_fresh request_fresh previous_fresh logger_fresh
+  plan_fresh ria_fresh mia_fresh emit_fresh log_rec_fresh k_status_calm k_kind_calm k_cancelled_calm
+  set_cancelled_calm set_status_none fP_pair @f3_pair @fB_pair fst_fP snd_fP @fst_fB @snd_fB : pp.
+Hint Rewrite upd_core_fresh using (intros; reflexivity) : pp.
+
+Ltac p_simp := repeat (progress (autorewrite with pp; cbn beta iota)).
+Ltac p_norm b := cfgnorm b; cfgnorm false; p_simp.
+
+(* ---- one action, a callback's actions ---- *)
+Lemma p_perform b origin a s k : no_plan_action a ->
+  perform P (cfgP b) origin a (fresh s, calm k) = f3 (perform P cfg0 origin a (fresh s, calm k)).
+Proof.
+  intros Ha. destruct a as [d|d p| |so|so|o d|o d p| |i]; cbn [no_plan_action] in Ha; try contradiction;
+    cbn [perform]; p_norm b.
+  - destruct (can_change (k_kind P k)); p_simp; reflexivity.
+  - destruct (can_change (k_kind P k) && c_payload cfg); p_simp; reflexivity.
+  - destruct (k_kind P k); p_simp; reflexivity.
+Qed.
+
+Lemma p_perform_all b origin : forall acts s k, Forall no_plan_action acts ->
+  perform_all P (cfgP b) origin acts (fresh s, calm k) = fP (perform_all P cfg0 origin acts (fresh s, calm k)).
+Proof.
+  unfold perform_all. induction acts as [|a acts IH]; intros s k Hacts; cbn [fold_left]; [reflexivity|].
+  inversion Hacts as [|? ? Ha Hrest]; subst.
+  rewrite (p_perform b origin a s k Ha), (p_perform false origin a s k Ha).
+  destruct (perform P cfg0 origin a (fresh s, calm k)) as [[s1 k1] res]. p_simp.
+  apply IH. exact Hrest.
+Qed.
+
+Section WithOracle.
+Variable orc : oracle P.
+Hypothesis Horc : no_plan_oracle orc.
+
+Lemma p_invoke b w r m s k :
+  invoke P (cfgP b) orc w r m (fresh s, calm k) = fP (invoke P cfg0 orc w r m (fresh s, calm k)).
+Proof.
+  unfold invoke. rewrite (p_mk_view b), (p_mk_view false). p_simp. apply p_perform_all. apply Horc.
+Qed.
+
+Lemma p_deliver b w m s k :
+  deliver P (cfgP b) orc w m (fresh s, calm k) = fP (deliver P cfg0 orc w m (fresh s, calm k)).
+Proof.
+  unfold deliver. p_norm b.
+  assert (E : (if logs cfg w m then fresh (log_rec P cfg (LMethod (id_of w) m) s) else fresh s) =
+              fresh (if logs cfg w m then log_rec P cfg (LMethod (id_of w) m) s else s)).
+  { destruct (logs cfg w m); reflexivity. }
+  rewrite E. set (s1 := if logs cfg w m then _ else _). clearbody s1.
+  destruct (exists_who cfg w); [|reflexivity].
+  generalize (deep_order m (inj_of cfg w)). intros rs. revert s1 k.
+  induction rs as [|r rs IH]; intros s1 k; cbn [fold_left]; [reflexivity|].
+  destruct (delivers cfg w r m); [|apply IH].
+  rewrite (p_invoke b), (p_invoke false). destruct (invoke P cfg0 orc w r m (fresh s1, calm k)) as [s2 k2].
+  p_simp. apply IH.
+Qed.
+
+Lemma p_deliver_guard b w m s k :
+  deliver_guard P (cfgP b) orc w m (fresh s, calm k) = f3 (deliver_guard P cfg0 orc w m (fresh s, calm k)).
+Proof.
+  unfold deliver_guard. cbn [snd]. rewrite (p_deliver b), (p_deliver false).
+  destruct (deliver P cfg0 orc w m (fresh s, calm k)) as [s1 k1]. p_simp. reflexivity.
+Qed.
+
+(* updates of the plan data that leave the constructed plan data as it is *)
+Ltac pd0_side :=
+  cbn beta;
+  first [ reflexivity
+        | apply pd0_clear_task_status
+        | apply pd0_plan_clear; exact Hcap
+        | destruct (c_head cfg); reflexivity ].
+Hint Rewrite upd_plan_fresh using (solve [pd0_side]) : pp.
+
+(* a call under [cfgP b] on the left and the same call under [cfg0] on the right: by the lemma [L] of the
+   callee both give fresh, calm results *)
+Ltac p_bind L b :=
+  rewrite (L false); try rewrite (L b);
+  match goal with
+  | |- context [match fP ?D with _ => _ end] => destruct D as [? ?]
+  | |- context [match f3 ?D with _ => _ end] => destruct D as [[? ?] ?]
+  | |- context [match fB ?D with _ => _ end] => destruct D as [? ?]
+  end; p_simp.
+
+Lemma p_region_phase b m post s k :
+  region_phase P (cfgP b) orc m post (fresh s, calm k) = fP (region_phase P cfg0 orc m post (fresh s, calm k)).
+Proof.
+  unfold region_phase. cbn [fst snd]. p_norm b. destruct post.
+  - p_bind p_deliver b. p_bind p_deliver b. reflexivity.
+  - p_bind p_deliver b. p_bind p_deliver b. reflexivity.
+Qed.
+
+(* (b) with an idle plan deepUpdatePlans does nothing *)
+Lemma deep_update_plans_idle c (sk : mstate P * ctl P) :
+  pd_exists (plan P (co P (fst sk))) = false -> deep_update_plans P c orc sk = sk.
+Proof. intros H. unfold deep_update_plans. rewrite H, andb_false_r. reflexivity. Qed.
+
+Lemma p_apply_request cur d s : apply_request P cur d (fresh s) = fB (apply_request P cur d s).
+Proof. unfold apply_request. destruct (t_neq P cur (t_to P d)); p_simp; reflexivity. Qed.
+Hint Rewrite p_apply_request : pp.
+
+Lemma p_cancelled_by_guards b cur pend s :
+  cancelled_by_guards P (cfgP b) orc cur pend (fresh s) = fB (cancelled_by_guards P cfg0 orc cur pend (fresh s)).
+Proof.
+  unfold cancelled_by_guards. rewrite mk_ctl_calm. p_norm b.
+  p_bind p_deliver_guard b. destruct b0; [reflexivity|].
+  p_bind p_deliver_guard b. reflexivity.
+Qed.
+
+Lemma p_cancelled_by_entry_guards b cur pend s :
+  cancelled_by_entry_guards P (cfgP b) orc cur pend (fresh s) =
+  fB (cancelled_by_entry_guards P cfg0 orc cur pend (fresh s)).
+Proof.
+  unfold cancelled_by_entry_guards. rewrite mk_ctl_calm. p_norm b.
+  p_bind p_deliver_guard b. destruct b0; [reflexivity|].
+  p_bind p_deliver_guard b. reflexivity.
+Qed.
+
+Lemma p_state_exit b w k s :
+  state_exit P (cfgP b) orc w (calm k) (fresh s) = fresh (state_exit P cfg0 orc w (calm k) (fresh s)).
+Proof.
+  unfold state_exit. p_norm b. p_bind p_deliver b. destruct (exists_who cfg w); p_simp; reflexivity.
+Qed.
+
+Ltac head_of t := lazymatch t with ?f _ => head_of f | _ => t end.
+Ltac is_state_call D :=
+  let h := head_of D in
+  lazymatch h with
+  | @state_exit => idtac | @deep_change_to_requested => idtac | @deep_enter => idtac | @deep_exit => idtac
+  | @process_request => idtac | @initial_enter => idtac | @final_exit => idtac | @cycle => idtac
+  | @base_load => idtac | @load_enter => idtac
+  end.
+(* the same for a callee that returns a state *)
+Ltac p_let L b :=
+  rewrite (L false); try rewrite (L b);
+  match goal with
+  | |- context [fresh ?D] => is_state_call D; generalize D; intro
+  end; p_simp.
+
+Lemma p_deep_change_to_requested b cur s :
+  deep_change_to_requested P (cfgP b) orc cur (fresh s) = fresh (deep_change_to_requested P cfg0 orc cur (fresh s)).
+Proof.
+  unfold deep_change_to_requested. cbn zeta. rewrite mk_ctl_calm. p_norm b.
+  destruct (negb (requested P (co P s) =? active P (co P s))).
+  - p_let p_state_exit b. rewrite (p_deliver false), (p_deliver b). p_simp. reflexivity.
+  - rewrite (p_deliver false), (p_deliver b). p_simp. reflexivity.
+Qed.
+
+Lemma p_deep_enter b cur s :
+  deep_enter P (cfgP b) orc cur (fresh s) = fresh (deep_enter P cfg0 orc cur (fresh s)).
+Proof.
+  unfold deep_enter. cbn zeta. rewrite mk_ctl_calm. p_norm b.
+  p_bind p_deliver b. rewrite (p_deliver false), (p_deliver b). p_simp. reflexivity.
+Qed.
+
+Lemma p_deep_exit b s : deep_exit P (cfgP b) orc (fresh s) = fresh (deep_exit P cfg0 orc (fresh s)).
+Proof.
+  unfold deep_exit. cbn zeta. rewrite mk_ctl_calm. p_norm b.
+  p_let p_state_exit b. p_let p_state_exit b. destruct b; p_simp; reflexivity.
+Qed.
+
+Lemma p_transitions_loop b : forall fuel cur s,
+  transitions_loop P (cfgP b) orc fuel cur (fresh s) = fB (transitions_loop P cfg0 orc fuel cur (fresh s)).
+Proof.
+  induction fuel as [|f IH]; intros cur s; cbn [transitions_loop]; [reflexivity|]. p_norm b.
+  destruct (t_valid P (request P (co P s))); [|reflexivity].
+  destruct (apply_request P cur (t_dest P (request P (co P s))) s) as [s1 applied]. p_simp.
+  destruct applied; [|apply IH].
+  p_bind p_cancelled_by_guards b. destruct b0; apply IH.
+Qed.
+
+Lemma p_initial_loop b : forall fuel cur s,
+  initial_loop P (cfgP b) orc fuel cur (fresh s) = fB (initial_loop P cfg0 orc fuel cur (fresh s)).
+Proof.
+  induction fuel as [|f IH]; intros cur s; cbn [initial_loop]; [reflexivity|]. p_norm b.
+  destruct (t_valid P (request P (co P s))); [|reflexivity].
+  destruct (apply_request P cur (t_dest P (request P (co P s))) s) as [s1 applied]. p_simp.
+  destruct applied; [|apply IH].
+  p_bind p_cancelled_by_entry_guards b. destruct b0; apply IH.
+Qed.
+
+Lemma p_process_transitions b s :
+  process_transitions P (cfgP b) orc (fresh s) = fB (process_transitions P cfg0 orc (fresh s)).
+Proof.
+  unfold process_transitions. p_norm b. p_bind p_transitions_loop b.
+  destruct (t_valid P t); [|reflexivity]. p_let p_deep_change_to_requested b. reflexivity.
+Qed.
+
+Lemma p_process_request b s :
+  process_request P (cfgP b) orc (fresh s) = fresh (process_request P cfg0 orc (fresh s)).
+Proof.
+  unfold process_request. p_norm b.
+  destruct (t_valid P (request P (co P s))).
+  - p_bind p_process_transitions b. destruct (c_history cfg); p_simp; reflexivity.
+  - destruct (c_history cfg); p_simp; reflexivity.
+Qed.
+
+Lemma p_initial_enter b s : initial_enter P (cfgP b) orc (fresh s) = fresh (initial_enter P cfg0 orc (fresh s)).
+Proof.
+  unfold initial_enter. p_norm b.
+  destruct (apply_request P (t_empty P) 0 s) as [s1 b1]. p_simp.
+  p_bind p_cancelled_by_entry_guards b. p_bind p_initial_loop b.
+  destruct (c_history cfg); p_simp; p_let p_deep_enter b; reflexivity.
+Qed.
+
+(* the clean-up of finalExit and load on the constructed plan data *)
+Lemma p_reset_core (b : bool) s :
+  upd_core P (fun c : core P =>
+    let c1 := set_request P (set_requested P (set_active P c INVALID) INVALID) (t_clear P (request P c)) in
+    let c2 := if b then set_plan P c1 (pd_clear P (plan P c1)) else c1 in
+    if c_history cfg then set_previous P c2 (t_clear P (previous P c2)) else c2) (fresh s) =
+  fresh (upd_core P (fun c : core P =>
+    let c1 := set_request P (set_requested P (set_active P c INVALID) INVALID) (t_clear P (request P c)) in
+    if c_history cfg then set_previous P c1 (t_clear P (previous P c1)) else c1) s).
+Proof.
+  unfold fresh, upd_core. cbn [co tr]. f_equal.
+  destruct b, (c_history cfg); cbn [plan set_plan set_request set_requested set_active set_previous
+    active requested request previous logger]; rewrite ?pd0_pd_clear; reflexivity.
+Qed.
+
+Lemma p_final_exit b s : final_exit P (cfgP b) orc (fresh s) = fresh (final_exit P cfg0 orc (fresh s)).
+Proof.
+  unfold final_exit. p_norm b. p_let p_deep_exit b.
+  rewrite (p_reset_core b), (p_reset_core false). reflexivity.
+Qed.
+
+Lemma p_cycle b m1 m2 m3 s :
+  cycle P (cfgP b) orc m1 m2 m3 (fresh s) = fresh (cycle P cfg0 orc m1 m2 m3 (fresh s)).
+Proof.
+  unfold cycle. cbn zeta. rewrite mk_ctl_calm. p_norm b.
+  rewrite (p_region_phase false m1), (p_region_phase b m1).
+  destruct (region_phase P cfg0 orc m1 false _) as [s1 k1]. p_simp.
+  rewrite (p_region_phase false m2), (p_region_phase b m2).
+  destruct (region_phase P cfg0 orc m2 false _) as [s2 k2]. p_simp.
+  rewrite (p_region_phase false m3), (p_region_phase b m3).
+  destruct (region_phase P cfg0 orc m3 true _) as [s3 k3]. p_simp.
+  destruct b.
+  - rewrite deep_update_plans_idle by reflexivity. p_simp. apply p_process_request.
+  - apply p_process_request.
+Qed.
+Lemma p_update b s : update P (cfgP b) orc (fresh s) = fresh (update P cfg0 orc (fresh s)).
+Proof. apply p_cycle. Qed.
+Lemma p_react b s : react P (cfgP b) orc (fresh s) = fresh (react P cfg0 orc (fresh s)).
+Proof. apply p_cycle. Qed.
+
+Lemma p_query b s : query P (cfgP b) orc (fresh s) = fresh (query P cfg0 orc (fresh s)).
+Proof.
+  unfold query. cbn zeta. rewrite mk_ctl_calm. p_norm b.
+  p_bind p_deliver b. rewrite (p_deliver false), (p_deliver b). p_simp. reflexivity.
+Qed.
+
+Lemma p_change_to b d p s : change_to P (cfgP b) d p (fresh s) = fresh (change_to P cfg0 d p (fresh s)).
+Proof. unfold change_to. p_norm b. reflexivity. Qed.
+
+Lemma p_immediate_change_to b d p s :
+  immediate_change_to P (cfgP b) orc d p (fresh s) = fresh (immediate_change_to P cfg0 orc d p (fresh s)).
+Proof.
+  unfold immediate_change_to. rewrite (p_change_to false), (p_change_to b).
+  generalize (change_to P cfg0 d p (fresh s)). intros s1. apply p_process_request.
+Qed.
+
+Lemma p_replay_transition b d s :
+  replay_transition P (cfgP b) orc d (fresh s) = fB (replay_transition P cfg0 orc d (fresh s)).
+Proof.
+  unfold replay_transition. destruct (negb (d =? INVALID)); [|reflexivity]. p_norm b.
+  destruct (apply_request P (t_empty P) d _) as [s1 b1]. p_simp.
+  p_let p_deep_change_to_requested b. reflexivity.
+Qed.
+
+Lemma p_replay_enter b d s :
+  replay_enter P (cfgP b) orc d (fresh s) = fresh (replay_enter P cfg0 orc d (fresh s)).
+Proof.
+  unfold replay_enter. p_norm b.
+  destruct (apply_request P (t_empty P) d s) as [s1 b1]. p_simp.
+  p_let p_deep_enter b. reflexivity.
+Qed.
+
+Lemma p_load_core (b : bool) s :
+  upd_core P (fun c : core P =>
+    let c1 := set_request P c (t_clear P (request P c)) in
+    let c2 := if b then set_plan P c1 (pd_clear P (plan P c1)) else c1 in
+    if c_history cfg then set_previous P c2 (t_clear P (previous P c2)) else c2) (fresh s) =
+  fresh (upd_core P (fun c : core P =>
+    let c1 := set_request P c (t_clear P (request P c)) in
+    if c_history cfg then set_previous P c1 (t_clear P (previous P c1)) else c1) s).
+Proof.
+  unfold fresh, upd_core. cbn [co tr]. f_equal.
+  destruct b, (c_history cfg); cbn [plan set_plan set_request set_requested set_active set_previous
+    active requested request previous logger]; rewrite ?pd0_pd_clear; reflexivity.
+Qed.
+
+Lemma p_base_load b buf cu s :
+  base_load P (cfgP b) orc buf cu (fresh s) = fresh (base_load P cfg0 orc buf cu (fresh s)).
+Proof.
+  unfold base_load. p_norm b. destruct (read buf cu (width_bits cfg)) as [v c1]. p_simp.
+  rewrite (p_load_core b), (p_load_core false). apply p_deep_change_to_requested.
+Qed.
+
+Lemma p_load_enter b buf cu s :
+  load_enter P (cfgP b) orc buf cu (fresh s) = fresh (load_enter P cfg0 orc buf cu (fresh s)).
+Proof.
+  unfold load_enter. p_norm b. destruct (read buf cu (width_bits cfg)) as [v c1]. p_simp.
+  apply p_deep_enter.
+Qed.
+
+Lemma p_load b buf s : load P (cfgP b) orc buf (fresh s) = fresh (load P cfg0 orc buf (fresh s)).
+Proof.
+  unfold load. p_norm b. destruct (read buf 0 1) as [flag c1].
+  destruct (c_manual cfg), (negb (flag =? 0)%N), (machine_is_active P (co P s));
+    auto using p_base_load, p_load_enter, p_final_exit.
+Qed.
+
+(* one API operation that is not a plan operation *)
+Lemma p_step b s op : no_plan_op op ->
+  step P (cfgP b) orc (fresh s) op = fB (step P cfg0 orc (fresh s) op).
+Proof.
+  intros Hop. destruct op; cbn [no_plan_op] in Hop; try contradiction; cbn [step];
+    rewrite ?(p_initial_enter b), ?(p_final_exit b), ?(p_update b), ?(p_react b), ?(p_query b), ?(p_change_to b),
+      ?(p_immediate_change_to b), ?(p_load b), ?(p_replay_enter b); try reflexivity.
+  - rewrite (p_replay_transition b). destruct (replay_transition P cfg0 orc d (fresh s)) as [s1 r]. reflexivity.
+Qed.
+
+Lemma p_run_from b : forall ops s, Forall no_plan_op ops ->
+  run_from P (cfgP b) orc (fresh s) ops = fresh (run_from P cfg0 orc (fresh s) ops).
+Proof.
+  unfold run_from. induction ops as [|op ops IH]; intros s Hops; cbn [fold_left]; [reflexivity|].
+  inversion Hops as [|? ? Hop Hrest]; subst.
+  rewrite (p_step false s op Hop), (p_step b s op Hop). rewrite !fst_fB. apply IH. exact Hrest.
+Qed.
+
+Lemma p_rets_from b : forall ops s, Forall no_plan_op ops ->
+  rets_from P (cfgP b) orc (fresh s) ops = rets_from P cfg0 orc (fresh s) ops.
+Proof.
+  induction ops as [|op ops IH]; intros s Hops; cbn [rets_from]; [reflexivity|].
+  inversion Hops as [|? ? Hop Hrest]; subst.
+  rewrite (p_step false s op Hop), (p_step b s op Hop). rewrite !fst_fB, !snd_fB.
+  rewrite IH by exact Hrest. reflexivity.
+Qed.
+
+Lemma p_construct b lg : construct P (cfgP b) orc lg = fresh (construct P cfg0 orc lg).
+Proof.
+  unfold construct. cbn zeta. p_norm b.
+  set (S0 := {| co := core_init P cfg0 lg; tr := [] |}).
+  change {| co := core_init P (cfgP b) lg; tr := [] |} with (fresh S0).
+  destruct (c_manual cfg); [reflexivity|].
+  rewrite (p_initial_enter b). apply f_equal. apply f_equal. reflexivity.
+Qed.
+
+Lemma p_destroy b s : destroy P (cfgP b) orc (fresh s) = fresh (destroy P cfg0 orc (fresh s)).
+Proof. unfold destroy. p_norm b. destruct (c_manual cfg); [reflexivity|apply p_final_exit]. Qed.
+
+(* ---- the general case: any idle plan data on the side with plans compiled in, any plan data at all on the side
+   without. Left: [cfgP b] from a state whose plan data is idle if b = true; right: [cfg0] from the same
+   state with the plan data replaced by the constructed one. ---- *)
+Definition Gd (b : bool) (d : plan_data P) : Prop := b = true -> PlanIdle P d.
+Definition GS (b : bool) (s : mstate P) : Prop := Gd b (plan P (co P s)).
+Definition GP (b : bool) (sk : mstate P * ctl P) : Prop := GS b (fst sk) /\ k_status P (snd sk) = SNone.
+
+Lemma fresh_upd_plan g s : fresh (upd_plan P g s) = fresh s. Proof. reflexivity. Qed.
+Hint Rewrite fresh_upd_plan : pp.
+
+Lemma GS_fresh b s : GS b (fresh s).
+Proof. intros _. apply pd0_idle. Qed.
+Lemma GS_emit b e s : GS b s -> GS b (emit P e s).
+Proof. intros H. exact H. Qed.
+Lemma GS_log_rec b l s : GS b s -> GS b (log_rec P cfg l s).
+Proof. intros H. unfold log_rec. destruct (log_compiled cfg && logger P (co P s)); exact H. Qed.
+Lemma GS_upd_core b f s : (forall c, plan P (f c) = plan P c) -> GS b s -> GS b (upd_core P f s).
+Proof. intros Hf H. unfold GS, upd_core. cbn [co]. rewrite Hf. exact H. Qed.
+Lemma GS_upd_plan b g s : (forall d, PlanIdle P d -> PlanIdle P (g d)) -> GS b s -> GS b (upd_plan P g s).
+Proof. intros Hg H Hb. apply Hg, H, Hb. Qed.
+
+Lemma idle_statuses d h u : h = SNone -> u = SNone -> PlanIdle P d -> PlanIdle P (pd_with_statuses P d h u).
+Proof. intros -> -> (H1 & H2 & H3 & H4). repeat split; assumption. Qed.
+Lemma idle_clear_task_status d sid : PlanIdle P d -> PlanIdle P (pd_clear_task_status P d sid).
+Proof. intros H. unfold pd_clear_task_status. destruct (sid =? INVALID); exact H. Qed.
+Lemma idle_plan_clear d : PlanIdle P d -> PlanIdle P (plan_clear P (c_cap cfg) (c_n cfg) d).
+Proof.
+  intros H. unfold plan_clear, plan_clear_tasks. destruct H as (H1 & H2 & H3 & H4).
+  rewrite H4, (INVALID_not_below _ Hcap). repeat split; assumption.
+Qed.
+Lemma idle_pd_clear d : PlanIdle P (pd_clear P d).
+Proof. repeat split. Qed.
+
+Lemma g_mk_view b o k s : GS b s -> mk_view P (cfgP b) o k (co P s) = mk_view P cfg0 o k (co P s).
+Proof.
+  intros H. unfold mk_view. cfgnorm b. cfgnorm false. destruct b; [|reflexivity].
+  rewrite (idle_plan_tasks P _ Hcap _ (H eq_refl)). destruct (k_kind P k); reflexivity.
+Qed.
+
+Lemma calm_eta k : k_status P k = SNone -> calm k = k.
+Proof. destruct k as [kd cu pe st ca]. cbn [k_status]. intros ->. reflexivity. Qed.
+
+Lemma g_perform b origin a s k : no_plan_action a -> GP b (s, k) ->
+  f3 (perform P (cfgP b) origin a (s, k)) = perform P cfg0 origin a (fresh s, calm k) /\
+  GP b (fst (perform P (cfgP b) origin a (s, k))).
+Proof.
+  intros Ha [HS HK]. cbn [fst snd] in HS, HK.
+  destruct a as [d|d p| |so|so|o d|o d p| |i]; cbn [no_plan_action] in Ha; try contradiction;
+    cbn [perform]; p_norm b.
+  - destruct (can_change (k_kind P k)); p_simp; (split; [reflexivity|]); split; cbn [fst snd]; auto.
+    apply GS_log_rec, GS_upd_core; auto.
+  - destruct (can_change (k_kind P k) && c_payload cfg); p_simp; (split; [reflexivity|]); split; cbn [fst snd]; auto.
+    apply GS_log_rec, GS_upd_core; auto.
+  - destruct (k_kind P k); p_simp; (split; [reflexivity|]); split; cbn [fst snd]; auto.
+    apply GS_log_rec; auto.
+Qed.
+
+Lemma g_perform_all b origin : forall acts s k, Forall no_plan_action acts -> GP b (s, k) ->
+  fP (perform_all P (cfgP b) origin acts (s, k)) = perform_all P cfg0 origin acts (fresh s, calm k) /\
+  GP b (perform_all P (cfgP b) origin acts (s, k)).
+Proof.
+  unfold perform_all. induction acts as [|a acts IH]; intros s k Hacts HG; cbn [fold_left]; [split; [reflexivity|exact HG]|].
+  inversion Hacts as [|? ? Ha Hrest]; subst.
+  destruct (g_perform b origin a s k Ha HG) as [E I]. rewrite <- E.
+  destruct (perform P (cfgP b) origin a (s, k)) as [[s1 k1] res]. p_simp. cbn [fst] in I.
+  apply IH; [exact Hrest|]. destruct I as [I1 I2]. split; assumption.
+Qed.
+
+Lemma g_invoke b w r m s k : GP b (s, k) ->
+  fP (invoke P (cfgP b) orc w r m (s, k)) = invoke P cfg0 orc w r m (fresh s, calm k) /\
+  GP b (invoke P (cfgP b) orc w r m (s, k)).
+Proof.
+  intros HG. unfold invoke. rewrite (g_mk_view b _ k s (proj1 HG)), (p_mk_view false). p_simp.
+  apply g_perform_all; [apply Horc|]. destruct HG as [I1 I2]. split; assumption.
+Qed.
+
+Lemma g_deliver b w m s k : GP b (s, k) ->
+  fP (deliver P (cfgP b) orc w m (s, k)) = deliver P cfg0 orc w m (fresh s, calm k) /\
+  GP b (deliver P (cfgP b) orc w m (s, k)).
+Proof.
+  intros HG. unfold deliver. p_norm b.
+  assert (E : (if logs cfg w m then fresh (log_rec P cfg (LMethod (id_of w) m) s) else fresh s) =
+              fresh (if logs cfg w m then log_rec P cfg (LMethod (id_of w) m) s else s)).
+  { destruct (logs cfg w m); reflexivity. }
+  rewrite E.
+  assert (HG1 : GP b (if logs cfg w m then log_rec P cfg (LMethod (id_of w) m) s else s, k)).
+  { destruct HG as [I1 I2]. split; [|exact I2]. cbn [fst]. destruct (logs cfg w m); [apply GS_log_rec|]; exact I1. }
+  remember (if logs cfg w m then log_rec P cfg (LMethod (id_of w) m) s else s) as s1 eqn:Es1.
+  clear HG E Es1.
+  destruct (exists_who cfg w); [|split; [reflexivity|exact HG1]].
+  generalize (deep_order m (inj_of cfg w)). intros rs. revert s1 k HG1.
+  induction rs as [|r rs IH]; intros s1 k HG1; cbn [fold_left]; [split; [reflexivity|exact HG1]|].
+  destruct (delivers cfg w r m); [|apply IH; exact HG1].
+  destruct (g_invoke b w r m s1 k HG1) as [E I]. rewrite <- E.
+  destruct (invoke P (cfgP b) orc w r m (s1, k)) as [s2 k2]. p_simp. apply IH. exact I.
+Qed.
+
+Lemma g_deliver_guard b w m s k : GP b (s, k) ->
+  f3 (deliver_guard P (cfgP b) orc w m (s, k)) = deliver_guard P cfg0 orc w m (fresh s, calm k) /\
+  GP b (fst (deliver_guard P (cfgP b) orc w m (s, k))).
+Proof.
+  intros HG. unfold deliver_guard. cbn [snd]. destruct (g_deliver b w m s k HG) as [E I]. rewrite <- E.
+  destruct (deliver P (cfgP b) orc w m (s, k)) as [s1 k1]. p_simp. split; [reflexivity|exact I].
+Qed.
+
+Ltac p_simp_in H := repeat (progress (autorewrite with pp in H; cbn beta iota in H)).
+(* [L] : fP (f (cfgP b) x) = f cfg0 x' /\ GP b (f (cfgP b) x), an instance of the callee's lemma whose
+   right-hand call occurs in the goal: name the callee's result and keep what is known of it *)
+Tactic Notation "g_bind" constr(L) "as" ident(I) :=
+  let E := fresh "E" in
+  destruct L as [E I]; p_simp_in E; rewrite <- E; clear E;
+  match type of I with
+  | GP _ (fst ?D) => destruct D as [[? ?] ?]
+  | GP _ ?D => destruct D as [? ?]
+  | GS _ (fst ?D) => destruct D as [? ?]
+  | GS _ ?D => revert I; generalize D; intros ? I
+  end; unfold GP in I; cbn [fst snd] in I; p_simp.
+
+Lemma GP_intro b s k : GS b s -> k_status P k = SNone -> GP b (s, k).
+Proof. intros H1 H2. split; assumption. Qed.
+
+(* the region statuses stay NONE *)
+Ltac idle_st :=
+  let d := fresh "d" in let Hd := fresh "Hd" in
+  let H2 := fresh "H" in let H3 := fresh "H" in
+  intros d Hd; apply idle_statuses; [| |exact Hd]; destruct Hd as (_ & H2 & H3 & _); rewrite ?H2, ?H3;
+  try destruct (c_head cfg); reflexivity.
+
+Lemma g_region_phase b m post s k : GP b (s, k) ->
+  fP (region_phase P (cfgP b) orc m post (s, k)) = region_phase P cfg0 orc m post (fresh s, calm k) /\
+  GP b (region_phase P (cfgP b) orc m post (s, k)).
+Proof.
+  intros HG. unfold region_phase. cbn [fst snd]. p_norm b. destruct post.
+  - g_bind (g_deliver b (leaf cfg (active P (co P s))) m s k HG) as HI. destruct HI as [I1 I2].
+    rewrite I2.
+    match goal with |- context [deliver P (cfgP b) orc Root m (?x, ?y)] =>
+      assert (HG1 : GP b (x, y)) by (apply GP_intro; [apply GS_upd_plan; [idle_st|exact I1]|exact I2]);
+      g_bind (g_deliver b Root m x y HG1) as HJ end.
+    destruct HJ as [J1 J2]. rewrite J2.
+    split; [reflexivity|]. apply GP_intro; [|reflexivity]. apply GS_upd_plan; [idle_st|exact J1].
+  - g_bind (g_deliver b Root m s k HG) as HI. destruct HI as [I1 I2].
+    rewrite I2.
+    match goal with |- context [deliver P (cfgP b) orc ?w m (?x, ?y)] =>
+      assert (HG1 : GP b (x, y)) by (apply GP_intro; [apply GS_upd_plan; [idle_st|exact I1]|exact I2]);
+      g_bind (g_deliver b w m x y HG1) as HJ end.
+    destruct HJ as [J1 J2]. rewrite J2.
+    split; [reflexivity|]. apply GP_intro; [|reflexivity]. apply GS_upd_plan; [idle_st|exact J1].
+Qed.
+
+Lemma GS_apply_request b cur d s : GS b s -> GS b (fst (apply_request P cur d s)).
+Proof. intros H. unfold apply_request. destruct (t_neq P cur (t_to P d)); exact H. Qed.
+
+Lemma g_cancelled_by_guards b cur pend s : GS b s ->
+  fB (cancelled_by_guards P (cfgP b) orc cur pend s) = cancelled_by_guards P cfg0 orc cur pend (fresh s) /\
+  GS b (fst (cancelled_by_guards P (cfgP b) orc cur pend s)).
+Proof.
+  intros HS. unfold cancelled_by_guards. rewrite mk_ctl_calm. p_norm b.
+  g_bind (g_deliver_guard b (leaf cfg (active P (co P s))) MExitGuard s (calm (mk_ctl P KGuard cur pend))
+            (GP_intro b s (calm (mk_ctl P KGuard cur pend)) HS eq_refl)) as HI.
+  destruct HI as [I1 I2]. destruct b0; [split; [reflexivity|exact I1]|].
+  match goal with |- context [deliver_guard P (cfgP b) orc ?w MEntryGuard (?x, ?y)] =>
+    g_bind (g_deliver_guard b w MEntryGuard x y (GP_intro b x y I1 I2)) as HJ end.
+  destruct HJ as [J1 J2]. split; [reflexivity|exact J1].
+Qed.
+
+Lemma g_cancelled_by_entry_guards b cur pend s : GS b s ->
+  fB (cancelled_by_entry_guards P (cfgP b) orc cur pend s) = cancelled_by_entry_guards P cfg0 orc cur pend (fresh s) /\
+  GS b (fst (cancelled_by_entry_guards P (cfgP b) orc cur pend s)).
+Proof.
+  intros HS. unfold cancelled_by_entry_guards. rewrite mk_ctl_calm. p_norm b.
+  g_bind (g_deliver_guard b Root MEntryGuard s (calm (mk_ctl P KGuard cur pend))
+            (GP_intro b s (calm (mk_ctl P KGuard cur pend)) HS eq_refl)) as HI.
+  destruct HI as [I1 I2]. destruct b0; [split; [reflexivity|exact I1]|].
+  match goal with |- context [deliver_guard P (cfgP b) orc ?w MEntryGuard (?x, ?y)] =>
+    g_bind (g_deliver_guard b w MEntryGuard x y (GP_intro b x y I1 I2)) as HJ end.
+  destruct HJ as [J1 J2]. split; [reflexivity|exact J1].
+Qed.
+
+Lemma g_state_exit b w k s : GP b (s, k) ->
+  fresh (state_exit P (cfgP b) orc w k s) = state_exit P cfg0 orc w (calm k) (fresh s) /\
+  GS b (state_exit P (cfgP b) orc w k s).
+Proof.
+  intros HG. unfold state_exit. p_norm b. g_bind (g_deliver b w MExit s k HG) as HI. destruct HI as [I1 I2].
+  destruct (exists_who cfg w); p_simp; (split; [reflexivity|]); [|exact I1].
+  apply GS_upd_plan; [|exact I1]. intros d. apply idle_clear_task_status.
+Qed.
+
+Lemma g_deep_change_to_requested b cur s : GS b s ->
+  fresh (deep_change_to_requested P (cfgP b) orc cur s) = deep_change_to_requested P cfg0 orc cur (fresh s) /\
+  GS b (deep_change_to_requested P (cfgP b) orc cur s).
+Proof.
+  intros HS. unfold deep_change_to_requested. cbn zeta. rewrite mk_ctl_calm. p_norm b.
+  set (k0 := mk_ctl P KPlan cur (t_empty P)).
+  destruct (negb (requested P (co P s) =? active P (co P s))).
+  - g_bind (g_state_exit b (leaf cfg (active P (co P s))) (calm k0) s (GP_intro b s (calm k0) HS eq_refl)) as HI.
+    match goal with |- context [deliver P (cfgP b) orc ?w MEnter (?x, (calm k0))] =>
+      assert (HG1 : GP b (x, (calm k0))) by (apply GP_intro; [apply GS_upd_core; [reflexivity|exact HI]|reflexivity]);
+      destruct (g_deliver b w MEnter x (calm k0) HG1) as [E J] end.
+    p_simp_in E. rewrite <- E. p_simp. split; [reflexivity|apply J].
+  - match goal with |- context [deliver P (cfgP b) orc ?w MReenter (?x, (calm k0))] =>
+      assert (HG1 : GP b (x, (calm k0))) by (apply GP_intro; [apply GS_upd_core; [reflexivity|exact HS]|reflexivity]);
+      destruct (g_deliver b w MReenter x (calm k0) HG1) as [E J] end.
+    p_simp_in E. rewrite <- E. p_simp. split; [reflexivity|apply J].
+Qed.
+
+Lemma g_deep_enter b cur s : GS b s ->
+  fresh (deep_enter P (cfgP b) orc cur s) = deep_enter P cfg0 orc cur (fresh s) /\
+  GS b (deep_enter P (cfgP b) orc cur s).
+Proof.
+  intros HS. unfold deep_enter. cbn zeta. rewrite mk_ctl_calm. p_norm b.
+  set (k0 := mk_ctl P KPlan cur (t_empty P)).
+  match goal with |- context [deliver P (cfgP b) orc Root MEnter (?x, (calm k0))] =>
+    assert (HG1 : GP b (x, (calm k0))) by (apply GP_intro; [apply GS_upd_core; [reflexivity|exact HS]|reflexivity]);
+    g_bind (g_deliver b Root MEnter x (calm k0) HG1) as HI end.
+  destruct HI as [I1 I2].
+  match goal with |- context [deliver P (cfgP b) orc ?w MEnter (?x, ?y)] =>
+    destruct (g_deliver b w MEnter x y (GP_intro b x y I1 I2)) as [E J] end.
+  p_simp_in E. rewrite <- E. p_simp. split; [reflexivity|apply J].
+Qed.
+
+Lemma g_deep_exit b s : GS b s ->
+  fresh (deep_exit P (cfgP b) orc s) = deep_exit P cfg0 orc (fresh s) /\ GS b (deep_exit P (cfgP b) orc s).
+Proof.
+  intros HS. unfold deep_exit. cbn zeta. rewrite mk_ctl_calm. p_norm b.
+  set (k0 := mk_ctl P KPlan (t_empty P) (t_empty P)).
+  g_bind (g_state_exit b (leaf cfg (active P (co P s))) (calm k0) s (GP_intro b s (calm k0) HS eq_refl)) as HI.
+  match goal with |- context [state_exit P (cfgP b) orc Root (calm k0) ?x] =>
+    g_bind (g_state_exit b Root (calm k0) x (GP_intro b x (calm k0) HI eq_refl)) as HJ end.
+  destruct b; p_simp; (split; [reflexivity|]).
+  - apply GS_upd_plan; [intros d; apply idle_plan_clear|]. apply GS_upd_core; [reflexivity|exact HJ].
+  - apply GS_upd_core; [reflexivity|exact HJ].
+Qed.
+
+Lemma g_transitions_loop b : forall fuel cur s, GS b s ->
+  fB (transitions_loop P (cfgP b) orc fuel cur s) = transitions_loop P cfg0 orc fuel cur (fresh s) /\
+  GS b (fst (transitions_loop P (cfgP b) orc fuel cur s)).
+Proof.
+  induction fuel as [|f IH]; intros cur s HS; cbn [transitions_loop]; [split; [reflexivity|exact HS]|]. p_norm b.
+  destruct (t_valid P (request P (co P s))); [|split; [reflexivity|exact HS]].
+  pose proof (GS_apply_request b cur (t_dest P (request P (co P s))) s HS) as HA.
+  destruct (apply_request P cur (t_dest P (request P (co P s))) s) as [s1 applied]. cbn [fst] in HA. p_simp.
+  destruct applied.
+  - match goal with |- context [cancelled_by_guards P (cfgP b) orc cur ?pe ?x] =>
+      assert (HS1 : GS b x) by (apply GS_upd_core; [reflexivity|exact HA]);
+      g_bind (g_cancelled_by_guards b cur pe x HS1) as HI end.
+    destruct b0; apply IH; [apply GS_upd_core; [reflexivity|exact HI]|exact HI].
+  - apply IH. apply GS_upd_core; [reflexivity|exact HA].
+Qed.
+
+Lemma g_initial_loop b : forall fuel cur s, GS b s ->
+  fB (initial_loop P (cfgP b) orc fuel cur s) = initial_loop P cfg0 orc fuel cur (fresh s) /\
+  GS b (fst (initial_loop P (cfgP b) orc fuel cur s)).
+Proof.
+  induction fuel as [|f IH]; intros cur s HS; cbn [initial_loop]; [split; [reflexivity|exact HS]|]. p_norm b.
+  destruct (t_valid P (request P (co P s))); [|split; [reflexivity|exact HS]].
+  pose proof (GS_apply_request b cur (t_dest P (request P (co P s))) s HS) as HA.
+  destruct (apply_request P cur (t_dest P (request P (co P s))) s) as [s1 applied]. cbn [fst] in HA. p_simp.
+  destruct applied.
+  - match goal with |- context [cancelled_by_entry_guards P (cfgP b) orc cur ?pe ?x] =>
+      assert (HS1 : GS b x) by (apply GS_upd_core; [reflexivity|exact HA]);
+      g_bind (g_cancelled_by_entry_guards b cur pe x HS1) as HI end.
+    destruct b0; apply IH; [apply GS_upd_core; [reflexivity|exact HI]|exact HI].
+  - apply IH. apply GS_upd_core; [reflexivity|exact HA].
+Qed.
+
+Lemma g_process_transitions b s : GS b s ->
+  fB (process_transitions P (cfgP b) orc s) = process_transitions P cfg0 orc (fresh s) /\
+  GS b (fst (process_transitions P (cfgP b) orc s)).
+Proof.
+  intros HS. unfold process_transitions. p_norm b.
+  g_bind (g_transitions_loop b (c_limit cfg) (t_empty P) s HS) as HI.
+  destruct (t_valid P t).
+  - g_bind (g_deep_change_to_requested b t m HI) as HJ. split; [reflexivity|].
+    apply GS_upd_core; [reflexivity|exact HJ].
+  - split; [reflexivity|]. apply GS_upd_core; [reflexivity|exact HI].
+Qed.
+
+Lemma g_process_request b s : GS b s ->
+  fresh (process_request P (cfgP b) orc s) = process_request P cfg0 orc (fresh s) /\
+  GS b (process_request P (cfgP b) orc s).
+Proof.
+  intros HS. unfold process_request. p_norm b.
+  destruct (t_valid P (request P (co P s))).
+  - g_bind (g_process_transitions b s HS) as HI.
+    destruct (c_history cfg); p_simp; (split; [reflexivity|]); [apply GS_upd_core; [reflexivity|]|]; exact HI.
+  - destruct (c_history cfg); p_simp; (split; [reflexivity|]); [apply GS_upd_core; [reflexivity|]|]; exact HS.
+Qed.
+
+Lemma g_initial_enter b s : GS b s ->
+  fresh (initial_enter P (cfgP b) orc s) = initial_enter P cfg0 orc (fresh s) /\
+  GS b (initial_enter P (cfgP b) orc s).
+Proof.
+  intros HS. unfold initial_enter. p_norm b.
+  pose proof (GS_apply_request b (t_empty P) 0 s HS) as HA.
+  destruct (apply_request P (t_empty P) 0 s) as [s1 b1]. cbn [fst] in HA. p_simp.
+  g_bind (g_cancelled_by_entry_guards b (t_empty P) (t_empty P) s1 HA) as HI.
+  g_bind (g_initial_loop b (c_limit cfg) (t_empty P) m HI) as HJ.
+  destruct (c_history cfg); p_simp.
+  - match goal with |- context [deep_enter P (cfgP b) orc t ?x] =>
+      assert (HS1 : GS b x) by (apply GS_upd_core; [reflexivity|exact HJ]);
+      g_bind (g_deep_enter b t x HS1) as HK end.
+    split; [reflexivity|]. apply GS_upd_core; [reflexivity|exact HK].
+  - g_bind (g_deep_enter b t m0 HJ) as HK.
+    split; [reflexivity|]. apply GS_upd_core; [reflexivity|exact HK].
+Qed.
+
+Lemma g_final_exit b s : GS b s ->
+  fresh (final_exit P (cfgP b) orc s) = final_exit P cfg0 orc (fresh s) /\ GS b (final_exit P (cfgP b) orc s).
+Proof.
+  intros HS. unfold final_exit. p_norm b. g_bind (g_deep_exit b s HS) as HI.
+  rewrite (p_reset_core false). split.
+  - unfold fresh, upd_core. cbn [co tr]. f_equal.
+    destruct b, (c_history cfg); reflexivity.
+  - intros Hb. subst b. unfold upd_core. cbn [co]. destruct (c_history cfg); apply idle_pd_clear.
+Qed.
+
+Lemma g_cycle b m1 m2 m3 s : GS b s ->
+  fresh (cycle P (cfgP b) orc m1 m2 m3 s) = cycle P cfg0 orc m1 m2 m3 (fresh s) /\
+  GS b (cycle P (cfgP b) orc m1 m2 m3 s).
+Proof.
+  intros HS. unfold cycle. cbn zeta. rewrite mk_ctl_calm. p_norm b.
+  set (k0 := mk_ctl P KFull (t_empty P) (t_empty P)).
+  destruct (g_region_phase b m1 false s (calm k0) (GP_intro b s (calm k0) HS eq_refl)) as [E1 I1].
+  p_simp_in E1. rewrite <- E1. clear E1.
+  destruct (region_phase P (cfgP b) orc m1 false (s, calm k0)) as [s1 k1].
+  destruct (g_region_phase b m2 false s1 k1 I1) as [E2 I2]. rewrite fP_pair. rewrite <- E2. clear E2.
+  destruct (region_phase P (cfgP b) orc m2 false (s1, k1)) as [s2 k2].
+  destruct (g_region_phase b m3 true s2 k2 I2) as [E3 I3]. rewrite fP_pair. rewrite <- E3. clear E3.
+  destruct (region_phase P (cfgP b) orc m3 true (s2, k2)) as [s3 k3]. p_simp.
+  destruct I3 as [J1 J2]. cbn [fst snd] in J1, J2.
+  destruct b.
+  - rewrite deep_update_plans_idle by (cbn [fst]; apply (J1 eq_refl)).
+    assert (HS3 : GS true (upd_plan P (pd_clear_region_statuses P) s3)).
+    { apply GS_upd_plan; [|exact J1]. intros d (H1 & H2 & H3 & H4). repeat split; assumption. }
+    destruct (g_process_request true _ HS3) as [E4 I4]. p_simp_in E4. split; [exact E4|exact I4].
+  - apply g_process_request. exact J1.
+Qed.
+
+Lemma g_query b s : GS b s ->
+  fresh (query P (cfgP b) orc s) = query P cfg0 orc (fresh s) /\ GS b (query P (cfgP b) orc s).
+Proof.
+  intros HS. unfold query. cbn zeta. rewrite mk_ctl_calm. p_norm b.
+  set (k0 := mk_ctl P KConst (t_empty P) (t_empty P)).
+  g_bind (g_deliver b Root MQuery s (calm k0) (GP_intro b s (calm k0) HS eq_refl)) as HI. destruct HI as [I1 I2].
+  match goal with |- context [deliver P (cfgP b) orc ?w MQuery (?x, ?y)] =>
+    destruct (g_deliver b w MQuery x y (GP_intro b x y I1 I2)) as [E J] end.
+  p_simp_in E. rewrite <- E. p_simp. split; [reflexivity|apply J].
+Qed.
+
+Lemma g_change_to b d p s : GS b s ->
+  fresh (change_to P (cfgP b) d p s) = change_to P cfg0 d p (fresh s) /\ GS b (change_to P (cfgP b) d p s).
+Proof.
+  intros HS. unfold change_to. p_norm b. split; [reflexivity|].
+  apply GS_log_rec, GS_upd_core; [reflexivity|exact HS].
+Qed.
+
+Lemma g_immediate_change_to b d p s : GS b s ->
+  fresh (immediate_change_to P (cfgP b) orc d p s) = immediate_change_to P cfg0 orc d p (fresh s) /\
+  GS b (immediate_change_to P (cfgP b) orc d p s).
+Proof.
+  intros HS. unfold immediate_change_to. g_bind (g_change_to b d p s HS) as HI. apply g_process_request. exact HI.
+Qed.
+
+Lemma g_replay_transition b d s : GS b s ->
+  fB (replay_transition P (cfgP b) orc d s) = replay_transition P cfg0 orc d (fresh s) /\
+  GS b (fst (replay_transition P (cfgP b) orc d s)).
+Proof.
+  intros HS. unfold replay_transition. destruct (negb (d =? INVALID)); [|split; [reflexivity|exact HS]]. p_norm b.
+  match goal with |- context [apply_request P (t_empty P) d ?x] =>
+    assert (HS0 : GS b x) by (apply GS_upd_core; [reflexivity|exact HS]);
+    pose proof (GS_apply_request b (t_empty P) d x HS0) as HA;
+    destruct (apply_request P (t_empty P) d x) as [s1 b1] end.
+  cbn [fst] in HA. p_simp.
+  match goal with |- context [deep_change_to_requested P (cfgP b) orc (t_empty P) ?x] =>
+    assert (HS1 : GS b x) by (apply GS_upd_core; [reflexivity|exact HA]);
+    g_bind (g_deep_change_to_requested b (t_empty P) x HS1) as HI end.
+  split; [reflexivity|]. apply GS_upd_core; [reflexivity|exact HI].
+Qed.
+
+Lemma g_replay_enter b d s : GS b s ->
+  fresh (replay_enter P (cfgP b) orc d s) = replay_enter P cfg0 orc d (fresh s) /\
+  GS b (replay_enter P (cfgP b) orc d s).
+Proof.
+  intros HS. unfold replay_enter. p_norm b.
+  pose proof (GS_apply_request b (t_empty P) d s HS) as HA.
+  destruct (apply_request P (t_empty P) d s) as [s1 b1]. cbn [fst] in HA. p_simp.
+  match goal with |- context [deep_enter P (cfgP b) orc (t_empty P) ?x] =>
+    assert (HS1 : GS b x) by (apply GS_upd_core; [reflexivity|exact HA]);
+    g_bind (g_deep_enter b (t_empty P) x HS1) as HI end.
+  split; [reflexivity|]. apply GS_upd_core; [reflexivity|exact HI].
+Qed.
+
+Lemma g_base_load b buf cu s : GS b s ->
+  fresh (base_load P (cfgP b) orc buf cu s) = base_load P cfg0 orc buf cu (fresh s) /\
+  GS b (base_load P (cfgP b) orc buf cu s).
+Proof.
+  intros HS. unfold base_load. p_norm b. destruct (read buf cu (width_bits cfg)) as [v c1]. p_simp.
+  rewrite (p_load_core false).
+  match goal with |- context [deep_change_to_requested P (cfgP b) orc (t_empty P) ?x] =>
+    assert (HS1 : GS b x) end.
+  { intros Hb. subst b. unfold upd_core. cbn [co]. destruct (c_history cfg); apply idle_pd_clear. }
+  match goal with |- context [deep_change_to_requested P (cfgP b) orc (t_empty P) ?x] =>
+    destruct (g_deep_change_to_requested b (t_empty P) x HS1) as [E J] end.
+  split; [|exact J]. rewrite E. apply f_equal.
+  unfold fresh, upd_core. cbn [co tr]. f_equal. destruct b, (c_history cfg); reflexivity.
+Qed.
+
+Lemma g_load_enter b buf cu s : GS b s ->
+  fresh (load_enter P (cfgP b) orc buf cu s) = load_enter P cfg0 orc buf cu (fresh s) /\
+  GS b (load_enter P (cfgP b) orc buf cu s).
+Proof.
+  intros HS. unfold load_enter. p_norm b. destruct (read buf cu (width_bits cfg)) as [v c1]. p_simp.
+  match goal with |- context [deep_enter P (cfgP b) orc (t_empty P) ?x] =>
+    assert (HS1 : GS b x) by (apply GS_upd_core; [reflexivity|exact HS]);
+    destruct (g_deep_enter b (t_empty P) x HS1) as [E J] end.
+  p_simp_in E. split; [exact E|exact J].
+Qed.
+
+Lemma g_load b buf s : GS b s ->
+  fresh (load P (cfgP b) orc buf s) = load P cfg0 orc buf (fresh s) /\ GS b (load P (cfgP b) orc buf s).
+Proof.
+  intros HS. unfold load. p_norm b. destruct (read buf 0 1) as [flag c1].
+  destruct (c_manual cfg), (negb (flag =? 0)%N), (machine_is_active P (co P s));
+    auto using g_base_load, g_load_enter, g_final_exit.
+Qed.
+
+(* one API operation that is not a plan operation *)
+Lemma g_step b s op : no_plan_op op -> GS b s ->
+  fB (step P (cfgP b) orc s op) = step P cfg0 orc (fresh s) op /\ GS b (fst (step P (cfgP b) orc s op)).
+Proof.
+  intros Hop HS. destruct op; cbn [no_plan_op] in Hop; try contradiction; cbn [step fst].
+  - destruct (g_initial_enter b s HS) as [E J]. rewrite <- E. split; [reflexivity|exact J].
+  - destruct (g_final_exit b s HS) as [E J]. rewrite <- E. split; [reflexivity|exact J].
+  - destruct (g_cycle b MPreUpdate MUpdate MPostUpdate s HS) as [E J]. unfold update. rewrite <- E. split; [reflexivity|exact J].
+  - destruct (g_cycle b MPreReact MReact MPostReact s HS) as [E J]. unfold react. rewrite <- E. split; [reflexivity|exact J].
+  - destruct (g_query b s HS) as [E J]. rewrite <- E. split; [reflexivity|exact J].
+  - destruct (g_change_to b d None s HS) as [E J]. rewrite <- E. split; [reflexivity|exact J].
+  - destruct (g_change_to b d (Some p) s HS) as [E J]. rewrite <- E. split; [reflexivity|exact J].
+  - destruct (g_immediate_change_to b d None s HS) as [E J]. rewrite <- E. split; [reflexivity|exact J].
+  - destruct (g_immediate_change_to b d (Some p) s HS) as [E J]. rewrite <- E. split; [reflexivity|exact J].
+  - destruct (g_load b buf s HS) as [E J]. rewrite <- E. split; [reflexivity|exact J].
+  - destruct (g_replay_enter b d s HS) as [E J]. rewrite <- E. split; [reflexivity|exact J].
+  - destruct (g_replay_transition b d s HS) as [E J]. rewrite <- E.
+    destruct (replay_transition P (cfgP b) orc d s) as [s1 r]. split; [reflexivity|exact J].
+  - split; [reflexivity|]. apply GS_upd_core; [reflexivity|exact HS].
+Qed.
+
+Lemma g_run_from b : forall ops s, Forall no_plan_op ops -> GS b s ->
+  fresh (run_from P (cfgP b) orc s ops) = run_from P cfg0 orc (fresh s) ops /\
+  rets_from P (cfgP b) orc s ops = rets_from P cfg0 orc (fresh s) ops /\
+  GS b (run_from P (cfgP b) orc s ops).
+Proof.
+  unfold run_from. induction ops as [|op ops IH]; intros s Hops HS; cbn [fold_left rets_from]; [split; [reflexivity|split; [reflexivity|exact HS]]|].
+  inversion Hops as [|? ? Hop Hrest]; subst.
+  destruct (g_step b s op Hop HS) as [E J]. rewrite <- E. rewrite fst_fB, snd_fB.
+  destruct (IH (fst (step P (cfgP b) orc s op)) Hrest J) as (E1 & E2 & E3).
+  rewrite E1, E2. split; [reflexivity|split; [reflexivity|exact E3]].
+Qed.
+
+End WithOracle.
+
+End WithCfg.
+End Plans.
+
+Arguments fresh {P}.
+Arguments fB {P} cfg {A}.
+
+(* C19, plans: from plan data as constructed, a program that performs no plan action and no plan operation runs
+   identically with plans compiled in and compiled out, and leaves the plan data exactly as constructed *)
+Theorem plans_step : forall P cfg orc, c_cap cfg <= 255 -> no_plan_oracle P orc ->
+  forall s op, no_plan_op P op -> plan P (co P s) = pd_init P (c_cap cfg) (c_n cfg) ->
+  step P (with_plans cfg true) orc s op = step P (with_plans cfg false) orc s op /\
+  plan P (co P (fst (step P (with_plans cfg true) orc s op))) = pd_init P (c_cap cfg) (c_n cfg).
+Proof.
+  intros P cfg orc Hcap Horc s op Hop Hs.
+  rewrite <- (fresh_eta P cfg s Hs).
+  rewrite (p_step P cfg Hcap orc Horc true s op Hop), <- (p_step P cfg Hcap orc Horc false s op Hop).
+  split; [reflexivity|].
+  rewrite (p_step P cfg Hcap orc Horc false s op Hop). reflexivity.
+Qed.
+
+Theorem plans_run_from : forall P cfg orc, c_cap cfg <= 255 -> no_plan_oracle P orc ->
+  forall ops s, Forall (no_plan_op P) ops -> plan P (co P s) = pd_init P (c_cap cfg) (c_n cfg) ->
+  run_from P (with_plans cfg true) orc s ops = run_from P (with_plans cfg false) orc s ops /\
+  rets_from P (with_plans cfg true) orc s ops = rets_from P (with_plans cfg false) orc s ops /\
+  plan P (co P (run_from P (with_plans cfg true) orc s ops)) = pd_init P (c_cap cfg) (c_n cfg).
+Proof.
+  intros P cfg orc Hcap Horc ops s Hops Hs.
+  rewrite <- (fresh_eta P cfg s Hs).
+  rewrite (p_run_from P cfg Hcap orc Horc true ops s Hops),
+    <- (p_run_from P cfg Hcap orc Horc false ops s Hops).
+  split; [reflexivity|]. split; [apply p_rets_from; assumption|].
+  rewrite (p_run_from P cfg Hcap orc Horc false ops s Hops). reflexivity.
+Qed.
+
+Theorem plans_construct : forall P cfg orc, c_cap cfg <= 255 -> no_plan_oracle P orc -> forall lg,
+  construct P (with_plans cfg true) orc lg = construct P (with_plans cfg false) orc lg /\
+  plan P (co P (construct P (with_plans cfg true) orc lg)) = pd_init P (c_cap cfg) (c_n cfg).
+Proof.
+  intros P cfg orc Hcap Horc lg.
+  rewrite (p_construct P cfg Hcap orc Horc true lg), <- (p_construct P cfg Hcap orc Horc false lg).
+  split; [reflexivity|]. rewrite (p_construct P cfg Hcap orc Horc false lg). reflexivity.
+Qed.
+
+Theorem plans_run : forall P cfg orc, c_cap cfg <= 255 -> no_plan_oracle P orc ->
+  forall lg ops, Forall (no_plan_op P) ops ->
+  run P (with_plans cfg true) orc lg ops = run P (with_plans cfg false) orc lg ops /\
+  run_rets P (with_plans cfg true) orc lg ops = run_rets P (with_plans cfg false) orc lg ops /\
+  plan P (co P (run P (with_plans cfg true) orc lg ops)) = pd_init P (c_cap cfg) (c_n cfg).
+Proof.
+  intros P cfg orc Hcap Horc lg ops Hops. unfold run, run_rets.
+  destruct (plans_construct P cfg orc Hcap Horc lg) as [Ec Hc].
+  destruct (plans_run_from P cfg orc Hcap Horc ops _ Hops Hc) as (E1 & E2 & E3).
+  rewrite <- Ec. auto.
+Qed.
+
+(* (a) the plan data stays idle; (c) everything but the plan data is the same (in fact the plan data too) *)
+Corollary plans_run_idle : forall P cfg orc, c_cap cfg <= 255 -> no_plan_oracle P orc ->
+  forall lg ops, Forall (no_plan_op P) ops ->
+  PlanIdle P (plan P (co P (run P (with_plans cfg true) orc lg ops))).
+Proof.
+  intros P cfg orc Hcap Horc lg ops Hops.
+  destruct (plans_run P cfg orc Hcap Horc lg ops Hops) as (_ & _ & E). rewrite E. apply pd0_idle.
+Qed.
+
+Lemma same_but_plan_refl P (s : mstate P) : same_but_plan P s s.
+Proof. repeat split. Qed.
+
+Corollary plans_run_same_but_plan : forall P cfg orc, c_cap cfg <= 255 -> no_plan_oracle P orc ->
+  forall lg ops, Forall (no_plan_op P) ops ->
+  same_but_plan P (run P (with_plans cfg true) orc lg ops) (run P (with_plans cfg false) orc lg ops).
+Proof.
+  intros P cfg orc Hcap Horc lg ops Hops.
+  destruct (plans_run P cfg orc Hcap Horc lg ops Hops) as (E & _ & _). rewrite E. apply same_but_plan_refl.
+Qed.
+
+(* what the instance reports between API calls is the same as well *)
+Theorem plans_observe : forall P cfg (c : core P), c_cap cfg <= 255 ->
+  plan P c = pd_init P (c_cap cfg) (c_n cfg) ->
+  observe P (with_plans cfg true) c = observe P (with_plans cfg false) c.
+Proof.
+  intros P cfg c Hcap Hc. unfold observe.
+  change (c_plans (with_plans cfg true)) with true. change (c_plans (with_plans cfg false)) with false.
+  change (c_cap (with_plans cfg true)) with (c_cap cfg). change (c_n (with_plans cfg true)) with (c_n cfg).
+  cbn [andb]. rewrite Hc, (pd0_tasks P _ _ Hcap), (pd0_nonempty P _ _ Hcap). reflexivity.
+Qed.
+
+Corollary plans_run_observe : forall P cfg orc, c_cap cfg <= 255 -> no_plan_oracle P orc ->
+  forall lg ops, Forall (no_plan_op P) ops ->
+  observe P (with_plans cfg true) (co P (run P (with_plans cfg true) orc lg ops)) =
+  observe P (with_plans cfg false) (co P (run P (with_plans cfg false) orc lg ops)).
+Proof.
+  intros P cfg orc Hcap Horc lg ops Hops.
+  destruct (plans_run P cfg orc Hcap Horc lg ops Hops) as (E & _ & Hp). rewrite <- E.
+  apply plans_observe; assumption.
+Qed.
+
+(* equal in everything but the plan data = equal once the plan data is overwritten *)
+Lemma same_but_plan_fresh P cfg (s s' : mstate P) : same_but_plan P s s' <-> fresh cfg s = fresh cfg s'.
+Proof.
+  split.
+  - intros (H1 & H2 & H3 & H4 & H5 & H6).
+    destruct s as [[a rq r pv pl lg] t], s' as [[a' rq' r' pv' pl' lg'] t']. cbn in *. subst. reflexivity.
+  - intros H. repeat split.
+    + exact (f_equal (fun x => active P (co P x)) H).
+    + exact (f_equal (fun x => requested P (co P x)) H).
+    + exact (f_equal (fun x => request P (co P x)) H).
+    + exact (f_equal (fun x => previous P (co P x)) H).
+    + exact (f_equal (fun x => logger P (co P x)) H).
+    + exact (f_equal (tr P) H).
+Qed.
+
+(* C19, plans, from any idle plan data: with plans compiled in, a program that performs no plan action and no
+   plan operation keeps the plan data idle, and does everything else exactly as with plans compiled out,
+   whatever plan data the latter carries *)
+Theorem plans_step_idle : forall P cfg orc, c_cap cfg <= 255 -> no_plan_oracle P orc ->
+  forall s s' op, no_plan_op P op -> PlanIdle P (plan P (co P s)) -> same_but_plan P s s' ->
+  same_but_plan P (fst (step P (with_plans cfg true) orc s op)) (fst (step P (with_plans cfg false) orc s' op)) /\
+  snd (step P (with_plans cfg true) orc s op) = snd (step P (with_plans cfg false) orc s' op) /\
+  PlanIdle P (plan P (co P (fst (step P (with_plans cfg true) orc s op)))).
+Proof.
+  intros P cfg orc Hcap Horc s s' op Hop Hidle Hsame.
+  destruct (g_step P cfg Hcap orc Horc true s op Hop (fun _ => Hidle)) as [E1 I1].
+  destruct (g_step P cfg Hcap orc Horc false s' op Hop (fun H => False_ind _ (Bool.diff_false_true H))) as [E2 _].
+  apply (same_but_plan_fresh P cfg) in Hsame. rewrite <- Hsame in E2.
+  split; [|split].
+  - apply (same_but_plan_fresh P cfg).
+    exact (eq_trans (f_equal fst E1) (eq_sym (f_equal fst E2))).
+  - exact (eq_trans (f_equal snd E1) (eq_sym (f_equal snd E2))).
+  - exact (I1 eq_refl).
+Qed.
+
+Theorem plans_run_from_idle : forall P cfg orc, c_cap cfg <= 255 -> no_plan_oracle P orc ->
+  forall ops s s', Forall (no_plan_op P) ops -> PlanIdle P (plan P (co P s)) -> same_but_plan P s s' ->
+  same_but_plan P (run_from P (with_plans cfg true) orc s ops) (run_from P (with_plans cfg false) orc s' ops) /\
+  rets_from P (with_plans cfg true) orc s ops = rets_from P (with_plans cfg false) orc s' ops /\
+  PlanIdle P (plan P (co P (run_from P (with_plans cfg true) orc s ops))).
+Proof.
+  intros P cfg orc Hcap Horc ops s s' Hops Hidle Hsame.
+  destruct (g_run_from P cfg Hcap orc Horc true ops s Hops (fun _ => Hidle)) as (E1 & R1 & I1).
+  destruct (g_run_from P cfg Hcap orc Horc false ops s' Hops (fun H => False_ind _ (Bool.diff_false_true H)))
+    as (E2 & R2 & _).
+  apply (same_but_plan_fresh P cfg) in Hsame. rewrite <- Hsame in E2, R2.
+  split; [|split].
+  - apply (same_but_plan_fresh P cfg). rewrite E1, E2. reflexivity.
+  - rewrite R1, R2. reflexivity.
+  - exact (I1 eq_refl).
+Qed.
+
+(* with plans compiled out the plan data is dead weight: what it holds never matters *)
+Corollary plans_off_plan_data_irrelevant : forall P cfg orc, c_cap cfg <= 255 -> no_plan_oracle P orc ->
+  forall ops s s', Forall (no_plan_op P) ops -> same_but_plan P s s' ->
+  same_but_plan P (run_from P (with_plans cfg false) orc s ops) (run_from P (with_plans cfg false) orc s' ops) /\
+  rets_from P (with_plans cfg false) orc s ops = rets_from P (with_plans cfg false) orc s' ops.
+Proof.
+  intros P cfg orc Hcap Horc ops s s' Hops Hsame.
+  destruct (g_run_from P cfg Hcap orc Horc false ops s Hops (fun H => False_ind _ (Bool.diff_false_true H)))
+    as (E1 & R1 & _).
+  destruct (g_run_from P cfg Hcap orc Horc false ops s' Hops (fun H => False_ind _ (Bool.diff_false_true H)))
+    as (E2 & R2 & _).
+  apply (same_but_plan_fresh P cfg) in Hsame. rewrite <- Hsame in E2, R2.
+  split.
+  - apply (same_but_plan_fresh P cfg). rewrite E1, E2. reflexivity.
+  - rewrite R1, R2. reflexivity.
+Qed.
+
+(* ================= (4) all four switches together ================= *)
+(* [cfg] with the four feature switches set: plans, serialization, transition history, log mode *)
+Definition with_features (cfg : config) (pl sr h : bool) (lm : logmode) : config :=
+  with_plans (with_serial (with_history (with_log cfg lm) h) sr) pl.
+
+(* a program that uses none of the three features; the logger may be attached and detached at will *)
+Definition featureless_op (P : Type) (op : api_op P) : Prop := no_history_op P op /\ no_plan_op P op.
+
+Lemma featureless_detach P ops : Forall (featureless_op P) ops ->
+  Forall (no_history_op P) (map (detach_op P) ops) /\ Forall (no_plan_op P) (map (detach_op P) ops).
+Proof.
+  induction ops as [|op ops IH]; intros H; cbn [map]; [split; constructor|].
+  inversion H as [|? ? [Hh Hp] Hrest]; subst. destruct (IH Hrest) as [IH1 IH2].
+  split; constructor; try assumption; destruct op; cbn in *; tauto.
+Qed.
+
+Lemma rets_log_transparent_gen : forall P cfg lm orc orc', log_blind P orc orc' -> forall ops s,
+  rets_from P cfg orc' s ops = rets_from P (with_log cfg lm) orc (strip P s) (map (detach_op P) ops).
+Proof.
+  intros P cfg lm orc orc' Hb. induction ops as [|op ops IH]; intros s; cbn [rets_from map]; [reflexivity|].
+  destruct (step_log_transparent_gen P cfg lm orc orc' Hb s op) as [E1 E2].
+  rewrite <- E1, <- E2, <- IH. reflexivity.
+Qed.
+
+Lemma run_rets_log_transparent_gen : forall P cfg lm orc orc', log_blind P orc orc' -> forall lg ops,
+  run_rets P cfg orc' lg ops = run_rets P (with_log cfg lm) orc false (map (detach_op P) ops).
+Proof.
+  intros P cfg lm orc orc' Hb lg ops. unfold run_rets.
+  rewrite (rets_log_transparent_gen P cfg lm orc orc' Hb), (construct_log_transparent_gen P cfg lm orc orc' Hb).
+  reflexivity.
+Qed.
+
+(* the run without a logger, with none of the features compiled in *)
+Definition bare_run (P : Type) (cfg : config) (orc : oracle P) (ops : list (api_op P)) : mstate P :=
+  run P (with_features cfg false false false LOff) orc false (map (detach_op P) ops).
+Definition bare_rets (P : Type) (cfg : config) (orc : oracle P) (ops : list (api_op P)) : list (api_ret P) :=
+  run_rets P (with_features cfg false false false LOff) orc false (map (detach_op P) ops).
+
+Theorem features_transparent : forall P cfg orc orc', c_cap cfg <= 255 ->
+  log_blind P orc orc' -> no_plan_oracle P orc ->
+  forall ops, Forall (featureless_op P) ops -> forall pl sr h lm lg,
+  strip_h P (strip P (run P (with_features cfg pl sr h lm) orc' lg ops)) = bare_run P cfg orc ops /\
+  run_rets P (with_features cfg pl sr h lm) orc' lg ops = bare_rets P cfg orc ops.
+Proof.
+  intros P cfg orc orc' Hcap Hb Horc ops Hops pl sr h lm lg.
+  destruct (featureless_detach P ops Hops) as [Hh Hp].
+  set (ops' := map (detach_op P) ops) in *.
+  set (X := with_history (with_log cfg LOff) false).
+  assert (Hplans :
+    run P (with_plans X pl) orc false ops' = run P (with_plans X false) orc false ops' /\
+    run_rets P (with_plans X pl) orc false ops' = run_rets P (with_plans X false) orc false ops').
+  { destruct pl; [|split; reflexivity].
+    destruct (plans_run P X orc Hcap Horc false ops' Hp) as (E1 & E2 & _). split; assumption. }
+  destruct Hplans as [Ep1 Ep2].
+  unfold bare_run, bare_rets, with_features. fold ops'. split.
+  - (* log *)
+    rewrite (run_log_transparent_gen P _ LOff orc orc' Hb lg ops). fold ops'.
+    (* serialization *)
+    change (with_log (with_plans (with_serial (with_history (with_log cfg lm) h) sr) pl) LOff)
+      with (with_serial (with_plans (with_history (with_log cfg LOff) h) pl) sr).
+    rewrite serial_run.
+    (* history *)
+    rewrite (history_run P _ orc false ops' Hh).
+    change (with_history (with_plans (with_history (with_log cfg LOff) h) pl) false) with (with_plans X pl).
+    (* plans *)
+    rewrite Ep1.
+    change (with_plans (with_serial (with_history (with_log cfg LOff) false) false) false)
+      with (with_serial (with_plans X false) false).
+    rewrite serial_run. reflexivity.
+  - rewrite (run_rets_log_transparent_gen P _ LOff orc orc' Hb lg ops). fold ops'.
+    change (with_log (with_plans (with_serial (with_history (with_log cfg lm) h) sr) pl) LOff)
+      with (with_serial (with_plans (with_history (with_log cfg LOff) h) pl) sr).
+    rewrite serial_run_rets.
+    rewrite (history_run_rets P _ orc false ops' Hh).
+    change (with_history (with_plans (with_history (with_log cfg LOff) h) pl) false) with (with_plans X pl).
+    rewrite Ep2.
+    change (with_plans (with_serial (with_history (with_log cfg LOff) false) false) false)
+      with (with_serial (with_plans X false) false).
+    rewrite serial_run_rets. reflexivity.
+Qed.
+
+(* C19: for a program that uses none of the features, any two choices of the four switches, with any logger
+   attachment, give the same run up to the logger's records and previousTransition, and the same API returns *)
+Corollary features_irrelevant : forall P cfg orc orc', c_cap cfg <= 255 ->
+  log_blind P orc orc' -> no_plan_oracle P orc ->
+  forall ops, Forall (featureless_op P) ops -> forall pl1 sr1 h1 lm1 lg1 pl2 sr2 h2 lm2 lg2,
+  strip_h P (strip P (run P (with_features cfg pl1 sr1 h1 lm1) orc' lg1 ops)) =
+  strip_h P (strip P (run P (with_features cfg pl2 sr2 h2 lm2) orc' lg2 ops)) /\
+  run_rets P (with_features cfg pl1 sr1 h1 lm1) orc' lg1 ops = run_rets P (with_features cfg pl2 sr2 h2 lm2) orc' lg2 ops.
+Proof.
+  intros P cfg orc orc' Hcap Hb Horc ops Hops pl1 sr1 h1 lm1 lg1 pl2 sr2 h2 lm2 lg2.
+  destruct (features_transparent P cfg orc orc' Hcap Hb Horc ops Hops pl1 sr1 h1 lm1 lg1) as [A1 B1].
+  destruct (features_transparent P cfg orc orc' Hcap Hb Horc ops Hops pl2 sr2 h2 lm2 lg2) as [A2 B2].
+  rewrite A1, A2, B1, B2. split; reflexivity.
+Qed.
+
+Lemma with_features_same cfg : with_features cfg (c_plans cfg) (c_serial cfg) (c_history cfg) (c_log cfg) = cfg.
+Proof. destruct cfg; reflexivity. Qed.
+
+Lemma stripped_fields P (s t : mstate P) : strip_h P (strip P s) = strip_h P (strip P t) ->
+  erase P (tr P s) = erase P (tr P t) /\ active P (co P s) = active P (co P t) /\
+  requested P (co P s) = requested P (co P t) /\ request P (co P s) = request P (co P t) /\
+  plan P (co P s) = plan P (co P t).
+Proof.
+  intros H. repeat split.
+  - exact (f_equal (tr P) H).
+  - exact (f_equal (fun x => active P (co P x)) H).
+  - exact (f_equal (fun x => requested P (co P x)) H).
+  - exact (f_equal (fun x => request P (co P x)) H).
+  - exact (f_equal (fun x => plan P (co P x)) H).
+Qed.
+
+(* the same for a configuration [cfg1] and any configuration that differs from it in the four switches only:
+   the callbacks delivered (with the views they saw), the actions performed (with their results), the active
+   state, the pending request, the plan data and every value returned by the API are the same *)
+Corollary features_irrelevant_observable : forall P cfg1 orc orc', c_cap cfg1 <= 255 ->
+  log_blind P orc orc' -> no_plan_oracle P orc ->
+  forall ops, Forall (featureless_op P) ops -> forall pl sr h lm lg1 lg2,
+  let cfg2 := with_features cfg1 pl sr h lm in
+  let l := run P cfg1 orc' lg1 ops in
+  let r := run P cfg2 orc' lg2 ops in
+  erase P (tr P l) = erase P (tr P r) /\ active P (co P l) = active P (co P r) /\
+  requested P (co P l) = requested P (co P r) /\ request P (co P l) = request P (co P r) /\
+  plan P (co P l) = plan P (co P r) /\
+  run_rets P cfg1 orc' lg1 ops = run_rets P cfg2 orc' lg2 ops.
+Proof.
+  intros P cfg1 orc orc' Hcap Hb Horc ops Hops pl sr h lm lg1 lg2 cfg2 l r.
+  destruct (features_irrelevant P cfg1 orc orc' Hcap Hb Horc ops Hops
+              (c_plans cfg1) (c_serial cfg1) (c_history cfg1) (c_log cfg1) lg1 pl sr h lm lg2) as [A B].
+  rewrite with_features_same in A, B.
+  destruct (stripped_fields P l r A) as (F1 & F2 & F3 & F4 & F5). repeat split; assumption.
+Qed.
+
+Print Assumptions serial_step.
+Print Assumptions serial_run.
+Print Assumptions serial_run_rets.
+Print Assumptions serial_observe.
+Print Assumptions history_step.
+Print Assumptions history_run.
+Print Assumptions history_run_rets.
+Print Assumptions history_run_on_off.
+Print Assumptions history_irrelevant.
+Print Assumptions history_run_fields.
+Print Assumptions history_observe.
+Print Assumptions plans_step.
+Print Assumptions plans_run_from.
+Print Assumptions plans_run.
+Print Assumptions plans_run_idle.
+Print Assumptions plans_run_same_but_plan.
+Print Assumptions plans_run_observe.
+Print Assumptions plans_step_idle.
+Print Assumptions plans_run_from_idle.
+Print Assumptions plans_off_plan_data_irrelevant.
+Print Assumptions features_transparent.
+Print Assumptions features_irrelevant.
+Print Assumptions features_irrelevant_observable.
